@@ -56,7 +56,8 @@ Inductive kind :=
 | KForUpdate | KWith | KForceIndex | KUseIndex | KSet | KColumns | KInsert
 (* dialect-specific clause calls: Vertica hint, MySQL modifier, ClickHouse final / sample / limit_by, PostgreSQL and
    ClickHouse distinct_on *)
-| KHint | KModifier | KFinal | KSample | KLimitBy | KDistinctOn.
+| KHint | KModifier | KFinal | KSample | KLimitBy | KDistinctOn
+| KTop.                                          (* MSSQL top(value, percent, with_ties) *)
 
 Definition kind_eqb (a b : kind) : bool :=
   match a, b with
@@ -65,13 +66,13 @@ Definition kind_eqb (a b : kind) : bool :=
   | KOffset, KOffset | KDistinct, KDistinct | KForUpdate, KForUpdate | KWith, KWith
   | KForceIndex, KForceIndex | KUseIndex, KUseIndex | KSet, KSet | KColumns, KColumns | KInsert, KInsert
   | KHint, KHint | KModifier, KModifier | KFinal, KFinal | KSample, KSample | KLimitBy, KLimitBy
-  | KDistinctOn, KDistinctOn => true
+  | KDistinctOn, KDistinctOn | KTop, KTop => true
   | _, _ => false
   end.
 Definition all_kinds : list kind :=
   [KFrom; KInto; KUpdate; KSelect; KJoin; KWhere; KPrewhere; KGroupby; KHaving; KOrderby; KLimit; KOffset;
    KDistinct; KForUpdate; KWith; KForceIndex; KUseIndex; KSet; KColumns; KInsert;
-   KHint; KModifier; KFinal; KSample; KLimitBy; KDistinctOn].
+   KHint; KModifier; KFinal; KSample; KLimitBy; KDistinctOn; KTop].
 (* the clause-adding kinds of the property *)
 Definition commuting (k : kind) : bool :=
   match k with KFrom | KInto | KUpdate => false | _ => true end.
@@ -137,89 +138,98 @@ Record qstate := mkq {
   q_sample_offset : option Z;
   q_limit_by : option (Z * Z * list term);
   q_distinct_on : list term;
-  q_insert_or_replace : bool
+  q_insert_or_replace : bool;
+  q_top : option Z;
+  q_top_percent : bool;
+  q_top_with_ties : bool
 }.
 
 Definition set_from (v : list tbl) (s : qstate) : qstate :=
-  {| q_from := v; q_insert_table := q_insert_table s; q_update_table := q_update_table s; q_with := q_with s; q_selects := q_selects s; q_select_star := q_select_star s; q_select_star_tables := q_select_star_tables s; q_joins := q_joins s; q_wheres := q_wheres s; q_prewheres := q_prewheres s; q_havings := q_havings s; q_groupbys := q_groupbys s; q_orderbys := q_orderbys s; q_limit := q_limit s; q_offset := q_offset s; q_distinct := q_distinct s; q_for_update := q_for_update s; q_for_update_nowait := q_for_update_nowait s; q_for_update_skip_locked := q_for_update_skip_locked s; q_for_update_of := q_for_update_of s; q_force_indexes := q_force_indexes s; q_use_indexes := q_use_indexes s; q_updates := q_updates s; q_columns := q_columns s; q_values := q_values s; q_replace := q_replace s; q_select_into := q_select_into s; q_subquery_count := q_subquery_count s; q_foreign_table := q_foreign_table s; q_mysql_rollup := q_mysql_rollup s; q_hint := q_hint s; q_modifiers := q_modifiers s; q_final := q_final s; q_sample := q_sample s; q_sample_offset := q_sample_offset s; q_limit_by := q_limit_by s; q_distinct_on := q_distinct_on s; q_insert_or_replace := q_insert_or_replace s |}.
+  {| q_from := v; q_insert_table := q_insert_table s; q_update_table := q_update_table s; q_with := q_with s; q_selects := q_selects s; q_select_star := q_select_star s; q_select_star_tables := q_select_star_tables s; q_joins := q_joins s; q_wheres := q_wheres s; q_prewheres := q_prewheres s; q_havings := q_havings s; q_groupbys := q_groupbys s; q_orderbys := q_orderbys s; q_limit := q_limit s; q_offset := q_offset s; q_distinct := q_distinct s; q_for_update := q_for_update s; q_for_update_nowait := q_for_update_nowait s; q_for_update_skip_locked := q_for_update_skip_locked s; q_for_update_of := q_for_update_of s; q_force_indexes := q_force_indexes s; q_use_indexes := q_use_indexes s; q_updates := q_updates s; q_columns := q_columns s; q_values := q_values s; q_replace := q_replace s; q_select_into := q_select_into s; q_subquery_count := q_subquery_count s; q_foreign_table := q_foreign_table s; q_mysql_rollup := q_mysql_rollup s; q_hint := q_hint s; q_modifiers := q_modifiers s; q_final := q_final s; q_sample := q_sample s; q_sample_offset := q_sample_offset s; q_limit_by := q_limit_by s; q_distinct_on := q_distinct_on s; q_insert_or_replace := q_insert_or_replace s; q_top := q_top s; q_top_percent := q_top_percent s; q_top_with_ties := q_top_with_ties s |}.
 Definition set_insert_table (v : option tbl) (s : qstate) : qstate :=
-  {| q_from := q_from s; q_insert_table := v; q_update_table := q_update_table s; q_with := q_with s; q_selects := q_selects s; q_select_star := q_select_star s; q_select_star_tables := q_select_star_tables s; q_joins := q_joins s; q_wheres := q_wheres s; q_prewheres := q_prewheres s; q_havings := q_havings s; q_groupbys := q_groupbys s; q_orderbys := q_orderbys s; q_limit := q_limit s; q_offset := q_offset s; q_distinct := q_distinct s; q_for_update := q_for_update s; q_for_update_nowait := q_for_update_nowait s; q_for_update_skip_locked := q_for_update_skip_locked s; q_for_update_of := q_for_update_of s; q_force_indexes := q_force_indexes s; q_use_indexes := q_use_indexes s; q_updates := q_updates s; q_columns := q_columns s; q_values := q_values s; q_replace := q_replace s; q_select_into := q_select_into s; q_subquery_count := q_subquery_count s; q_foreign_table := q_foreign_table s; q_mysql_rollup := q_mysql_rollup s; q_hint := q_hint s; q_modifiers := q_modifiers s; q_final := q_final s; q_sample := q_sample s; q_sample_offset := q_sample_offset s; q_limit_by := q_limit_by s; q_distinct_on := q_distinct_on s; q_insert_or_replace := q_insert_or_replace s |}.
+  {| q_from := q_from s; q_insert_table := v; q_update_table := q_update_table s; q_with := q_with s; q_selects := q_selects s; q_select_star := q_select_star s; q_select_star_tables := q_select_star_tables s; q_joins := q_joins s; q_wheres := q_wheres s; q_prewheres := q_prewheres s; q_havings := q_havings s; q_groupbys := q_groupbys s; q_orderbys := q_orderbys s; q_limit := q_limit s; q_offset := q_offset s; q_distinct := q_distinct s; q_for_update := q_for_update s; q_for_update_nowait := q_for_update_nowait s; q_for_update_skip_locked := q_for_update_skip_locked s; q_for_update_of := q_for_update_of s; q_force_indexes := q_force_indexes s; q_use_indexes := q_use_indexes s; q_updates := q_updates s; q_columns := q_columns s; q_values := q_values s; q_replace := q_replace s; q_select_into := q_select_into s; q_subquery_count := q_subquery_count s; q_foreign_table := q_foreign_table s; q_mysql_rollup := q_mysql_rollup s; q_hint := q_hint s; q_modifiers := q_modifiers s; q_final := q_final s; q_sample := q_sample s; q_sample_offset := q_sample_offset s; q_limit_by := q_limit_by s; q_distinct_on := q_distinct_on s; q_insert_or_replace := q_insert_or_replace s; q_top := q_top s; q_top_percent := q_top_percent s; q_top_with_ties := q_top_with_ties s |}.
 Definition set_update_table (v : option tbl) (s : qstate) : qstate :=
-  {| q_from := q_from s; q_insert_table := q_insert_table s; q_update_table := v; q_with := q_with s; q_selects := q_selects s; q_select_star := q_select_star s; q_select_star_tables := q_select_star_tables s; q_joins := q_joins s; q_wheres := q_wheres s; q_prewheres := q_prewheres s; q_havings := q_havings s; q_groupbys := q_groupbys s; q_orderbys := q_orderbys s; q_limit := q_limit s; q_offset := q_offset s; q_distinct := q_distinct s; q_for_update := q_for_update s; q_for_update_nowait := q_for_update_nowait s; q_for_update_skip_locked := q_for_update_skip_locked s; q_for_update_of := q_for_update_of s; q_force_indexes := q_force_indexes s; q_use_indexes := q_use_indexes s; q_updates := q_updates s; q_columns := q_columns s; q_values := q_values s; q_replace := q_replace s; q_select_into := q_select_into s; q_subquery_count := q_subquery_count s; q_foreign_table := q_foreign_table s; q_mysql_rollup := q_mysql_rollup s; q_hint := q_hint s; q_modifiers := q_modifiers s; q_final := q_final s; q_sample := q_sample s; q_sample_offset := q_sample_offset s; q_limit_by := q_limit_by s; q_distinct_on := q_distinct_on s; q_insert_or_replace := q_insert_or_replace s |}.
+  {| q_from := q_from s; q_insert_table := q_insert_table s; q_update_table := v; q_with := q_with s; q_selects := q_selects s; q_select_star := q_select_star s; q_select_star_tables := q_select_star_tables s; q_joins := q_joins s; q_wheres := q_wheres s; q_prewheres := q_prewheres s; q_havings := q_havings s; q_groupbys := q_groupbys s; q_orderbys := q_orderbys s; q_limit := q_limit s; q_offset := q_offset s; q_distinct := q_distinct s; q_for_update := q_for_update s; q_for_update_nowait := q_for_update_nowait s; q_for_update_skip_locked := q_for_update_skip_locked s; q_for_update_of := q_for_update_of s; q_force_indexes := q_force_indexes s; q_use_indexes := q_use_indexes s; q_updates := q_updates s; q_columns := q_columns s; q_values := q_values s; q_replace := q_replace s; q_select_into := q_select_into s; q_subquery_count := q_subquery_count s; q_foreign_table := q_foreign_table s; q_mysql_rollup := q_mysql_rollup s; q_hint := q_hint s; q_modifiers := q_modifiers s; q_final := q_final s; q_sample := q_sample s; q_sample_offset := q_sample_offset s; q_limit_by := q_limit_by s; q_distinct_on := q_distinct_on s; q_insert_or_replace := q_insert_or_replace s; q_top := q_top s; q_top_percent := q_top_percent s; q_top_with_ties := q_top_with_ties s |}.
 Definition set_with (v : list (string * term)) (s : qstate) : qstate :=
-  {| q_from := q_from s; q_insert_table := q_insert_table s; q_update_table := q_update_table s; q_with := v; q_selects := q_selects s; q_select_star := q_select_star s; q_select_star_tables := q_select_star_tables s; q_joins := q_joins s; q_wheres := q_wheres s; q_prewheres := q_prewheres s; q_havings := q_havings s; q_groupbys := q_groupbys s; q_orderbys := q_orderbys s; q_limit := q_limit s; q_offset := q_offset s; q_distinct := q_distinct s; q_for_update := q_for_update s; q_for_update_nowait := q_for_update_nowait s; q_for_update_skip_locked := q_for_update_skip_locked s; q_for_update_of := q_for_update_of s; q_force_indexes := q_force_indexes s; q_use_indexes := q_use_indexes s; q_updates := q_updates s; q_columns := q_columns s; q_values := q_values s; q_replace := q_replace s; q_select_into := q_select_into s; q_subquery_count := q_subquery_count s; q_foreign_table := q_foreign_table s; q_mysql_rollup := q_mysql_rollup s; q_hint := q_hint s; q_modifiers := q_modifiers s; q_final := q_final s; q_sample := q_sample s; q_sample_offset := q_sample_offset s; q_limit_by := q_limit_by s; q_distinct_on := q_distinct_on s; q_insert_or_replace := q_insert_or_replace s |}.
+  {| q_from := q_from s; q_insert_table := q_insert_table s; q_update_table := q_update_table s; q_with := v; q_selects := q_selects s; q_select_star := q_select_star s; q_select_star_tables := q_select_star_tables s; q_joins := q_joins s; q_wheres := q_wheres s; q_prewheres := q_prewheres s; q_havings := q_havings s; q_groupbys := q_groupbys s; q_orderbys := q_orderbys s; q_limit := q_limit s; q_offset := q_offset s; q_distinct := q_distinct s; q_for_update := q_for_update s; q_for_update_nowait := q_for_update_nowait s; q_for_update_skip_locked := q_for_update_skip_locked s; q_for_update_of := q_for_update_of s; q_force_indexes := q_force_indexes s; q_use_indexes := q_use_indexes s; q_updates := q_updates s; q_columns := q_columns s; q_values := q_values s; q_replace := q_replace s; q_select_into := q_select_into s; q_subquery_count := q_subquery_count s; q_foreign_table := q_foreign_table s; q_mysql_rollup := q_mysql_rollup s; q_hint := q_hint s; q_modifiers := q_modifiers s; q_final := q_final s; q_sample := q_sample s; q_sample_offset := q_sample_offset s; q_limit_by := q_limit_by s; q_distinct_on := q_distinct_on s; q_insert_or_replace := q_insert_or_replace s; q_top := q_top s; q_top_percent := q_top_percent s; q_top_with_ties := q_top_with_ties s |}.
 Definition set_selects (v : list term) (s : qstate) : qstate :=
-  {| q_from := q_from s; q_insert_table := q_insert_table s; q_update_table := q_update_table s; q_with := q_with s; q_selects := v; q_select_star := q_select_star s; q_select_star_tables := q_select_star_tables s; q_joins := q_joins s; q_wheres := q_wheres s; q_prewheres := q_prewheres s; q_havings := q_havings s; q_groupbys := q_groupbys s; q_orderbys := q_orderbys s; q_limit := q_limit s; q_offset := q_offset s; q_distinct := q_distinct s; q_for_update := q_for_update s; q_for_update_nowait := q_for_update_nowait s; q_for_update_skip_locked := q_for_update_skip_locked s; q_for_update_of := q_for_update_of s; q_force_indexes := q_force_indexes s; q_use_indexes := q_use_indexes s; q_updates := q_updates s; q_columns := q_columns s; q_values := q_values s; q_replace := q_replace s; q_select_into := q_select_into s; q_subquery_count := q_subquery_count s; q_foreign_table := q_foreign_table s; q_mysql_rollup := q_mysql_rollup s; q_hint := q_hint s; q_modifiers := q_modifiers s; q_final := q_final s; q_sample := q_sample s; q_sample_offset := q_sample_offset s; q_limit_by := q_limit_by s; q_distinct_on := q_distinct_on s; q_insert_or_replace := q_insert_or_replace s |}.
+  {| q_from := q_from s; q_insert_table := q_insert_table s; q_update_table := q_update_table s; q_with := q_with s; q_selects := v; q_select_star := q_select_star s; q_select_star_tables := q_select_star_tables s; q_joins := q_joins s; q_wheres := q_wheres s; q_prewheres := q_prewheres s; q_havings := q_havings s; q_groupbys := q_groupbys s; q_orderbys := q_orderbys s; q_limit := q_limit s; q_offset := q_offset s; q_distinct := q_distinct s; q_for_update := q_for_update s; q_for_update_nowait := q_for_update_nowait s; q_for_update_skip_locked := q_for_update_skip_locked s; q_for_update_of := q_for_update_of s; q_force_indexes := q_force_indexes s; q_use_indexes := q_use_indexes s; q_updates := q_updates s; q_columns := q_columns s; q_values := q_values s; q_replace := q_replace s; q_select_into := q_select_into s; q_subquery_count := q_subquery_count s; q_foreign_table := q_foreign_table s; q_mysql_rollup := q_mysql_rollup s; q_hint := q_hint s; q_modifiers := q_modifiers s; q_final := q_final s; q_sample := q_sample s; q_sample_offset := q_sample_offset s; q_limit_by := q_limit_by s; q_distinct_on := q_distinct_on s; q_insert_or_replace := q_insert_or_replace s; q_top := q_top s; q_top_percent := q_top_percent s; q_top_with_ties := q_top_with_ties s |}.
 Definition set_select_star (v : bool) (s : qstate) : qstate :=
-  {| q_from := q_from s; q_insert_table := q_insert_table s; q_update_table := q_update_table s; q_with := q_with s; q_selects := q_selects s; q_select_star := v; q_select_star_tables := q_select_star_tables s; q_joins := q_joins s; q_wheres := q_wheres s; q_prewheres := q_prewheres s; q_havings := q_havings s; q_groupbys := q_groupbys s; q_orderbys := q_orderbys s; q_limit := q_limit s; q_offset := q_offset s; q_distinct := q_distinct s; q_for_update := q_for_update s; q_for_update_nowait := q_for_update_nowait s; q_for_update_skip_locked := q_for_update_skip_locked s; q_for_update_of := q_for_update_of s; q_force_indexes := q_force_indexes s; q_use_indexes := q_use_indexes s; q_updates := q_updates s; q_columns := q_columns s; q_values := q_values s; q_replace := q_replace s; q_select_into := q_select_into s; q_subquery_count := q_subquery_count s; q_foreign_table := q_foreign_table s; q_mysql_rollup := q_mysql_rollup s; q_hint := q_hint s; q_modifiers := q_modifiers s; q_final := q_final s; q_sample := q_sample s; q_sample_offset := q_sample_offset s; q_limit_by := q_limit_by s; q_distinct_on := q_distinct_on s; q_insert_or_replace := q_insert_or_replace s |}.
+  {| q_from := q_from s; q_insert_table := q_insert_table s; q_update_table := q_update_table s; q_with := q_with s; q_selects := q_selects s; q_select_star := v; q_select_star_tables := q_select_star_tables s; q_joins := q_joins s; q_wheres := q_wheres s; q_prewheres := q_prewheres s; q_havings := q_havings s; q_groupbys := q_groupbys s; q_orderbys := q_orderbys s; q_limit := q_limit s; q_offset := q_offset s; q_distinct := q_distinct s; q_for_update := q_for_update s; q_for_update_nowait := q_for_update_nowait s; q_for_update_skip_locked := q_for_update_skip_locked s; q_for_update_of := q_for_update_of s; q_force_indexes := q_force_indexes s; q_use_indexes := q_use_indexes s; q_updates := q_updates s; q_columns := q_columns s; q_values := q_values s; q_replace := q_replace s; q_select_into := q_select_into s; q_subquery_count := q_subquery_count s; q_foreign_table := q_foreign_table s; q_mysql_rollup := q_mysql_rollup s; q_hint := q_hint s; q_modifiers := q_modifiers s; q_final := q_final s; q_sample := q_sample s; q_sample_offset := q_sample_offset s; q_limit_by := q_limit_by s; q_distinct_on := q_distinct_on s; q_insert_or_replace := q_insert_or_replace s; q_top := q_top s; q_top_percent := q_top_percent s; q_top_with_ties := q_top_with_ties s |}.
 Definition set_select_star_tables (v : list (option tbl)) (s : qstate) : qstate :=
-  {| q_from := q_from s; q_insert_table := q_insert_table s; q_update_table := q_update_table s; q_with := q_with s; q_selects := q_selects s; q_select_star := q_select_star s; q_select_star_tables := v; q_joins := q_joins s; q_wheres := q_wheres s; q_prewheres := q_prewheres s; q_havings := q_havings s; q_groupbys := q_groupbys s; q_orderbys := q_orderbys s; q_limit := q_limit s; q_offset := q_offset s; q_distinct := q_distinct s; q_for_update := q_for_update s; q_for_update_nowait := q_for_update_nowait s; q_for_update_skip_locked := q_for_update_skip_locked s; q_for_update_of := q_for_update_of s; q_force_indexes := q_force_indexes s; q_use_indexes := q_use_indexes s; q_updates := q_updates s; q_columns := q_columns s; q_values := q_values s; q_replace := q_replace s; q_select_into := q_select_into s; q_subquery_count := q_subquery_count s; q_foreign_table := q_foreign_table s; q_mysql_rollup := q_mysql_rollup s; q_hint := q_hint s; q_modifiers := q_modifiers s; q_final := q_final s; q_sample := q_sample s; q_sample_offset := q_sample_offset s; q_limit_by := q_limit_by s; q_distinct_on := q_distinct_on s; q_insert_or_replace := q_insert_or_replace s |}.
+  {| q_from := q_from s; q_insert_table := q_insert_table s; q_update_table := q_update_table s; q_with := q_with s; q_selects := q_selects s; q_select_star := q_select_star s; q_select_star_tables := v; q_joins := q_joins s; q_wheres := q_wheres s; q_prewheres := q_prewheres s; q_havings := q_havings s; q_groupbys := q_groupbys s; q_orderbys := q_orderbys s; q_limit := q_limit s; q_offset := q_offset s; q_distinct := q_distinct s; q_for_update := q_for_update s; q_for_update_nowait := q_for_update_nowait s; q_for_update_skip_locked := q_for_update_skip_locked s; q_for_update_of := q_for_update_of s; q_force_indexes := q_force_indexes s; q_use_indexes := q_use_indexes s; q_updates := q_updates s; q_columns := q_columns s; q_values := q_values s; q_replace := q_replace s; q_select_into := q_select_into s; q_subquery_count := q_subquery_count s; q_foreign_table := q_foreign_table s; q_mysql_rollup := q_mysql_rollup s; q_hint := q_hint s; q_modifiers := q_modifiers s; q_final := q_final s; q_sample := q_sample s; q_sample_offset := q_sample_offset s; q_limit_by := q_limit_by s; q_distinct_on := q_distinct_on s; q_insert_or_replace := q_insert_or_replace s; q_top := q_top s; q_top_percent := q_top_percent s; q_top_with_ties := q_top_with_ties s |}.
 Definition set_joins (v : list join) (s : qstate) : qstate :=
-  {| q_from := q_from s; q_insert_table := q_insert_table s; q_update_table := q_update_table s; q_with := q_with s; q_selects := q_selects s; q_select_star := q_select_star s; q_select_star_tables := q_select_star_tables s; q_joins := v; q_wheres := q_wheres s; q_prewheres := q_prewheres s; q_havings := q_havings s; q_groupbys := q_groupbys s; q_orderbys := q_orderbys s; q_limit := q_limit s; q_offset := q_offset s; q_distinct := q_distinct s; q_for_update := q_for_update s; q_for_update_nowait := q_for_update_nowait s; q_for_update_skip_locked := q_for_update_skip_locked s; q_for_update_of := q_for_update_of s; q_force_indexes := q_force_indexes s; q_use_indexes := q_use_indexes s; q_updates := q_updates s; q_columns := q_columns s; q_values := q_values s; q_replace := q_replace s; q_select_into := q_select_into s; q_subquery_count := q_subquery_count s; q_foreign_table := q_foreign_table s; q_mysql_rollup := q_mysql_rollup s; q_hint := q_hint s; q_modifiers := q_modifiers s; q_final := q_final s; q_sample := q_sample s; q_sample_offset := q_sample_offset s; q_limit_by := q_limit_by s; q_distinct_on := q_distinct_on s; q_insert_or_replace := q_insert_or_replace s |}.
+  {| q_from := q_from s; q_insert_table := q_insert_table s; q_update_table := q_update_table s; q_with := q_with s; q_selects := q_selects s; q_select_star := q_select_star s; q_select_star_tables := q_select_star_tables s; q_joins := v; q_wheres := q_wheres s; q_prewheres := q_prewheres s; q_havings := q_havings s; q_groupbys := q_groupbys s; q_orderbys := q_orderbys s; q_limit := q_limit s; q_offset := q_offset s; q_distinct := q_distinct s; q_for_update := q_for_update s; q_for_update_nowait := q_for_update_nowait s; q_for_update_skip_locked := q_for_update_skip_locked s; q_for_update_of := q_for_update_of s; q_force_indexes := q_force_indexes s; q_use_indexes := q_use_indexes s; q_updates := q_updates s; q_columns := q_columns s; q_values := q_values s; q_replace := q_replace s; q_select_into := q_select_into s; q_subquery_count := q_subquery_count s; q_foreign_table := q_foreign_table s; q_mysql_rollup := q_mysql_rollup s; q_hint := q_hint s; q_modifiers := q_modifiers s; q_final := q_final s; q_sample := q_sample s; q_sample_offset := q_sample_offset s; q_limit_by := q_limit_by s; q_distinct_on := q_distinct_on s; q_insert_or_replace := q_insert_or_replace s; q_top := q_top s; q_top_percent := q_top_percent s; q_top_with_ties := q_top_with_ties s |}.
 Definition set_wheres (v : option term) (s : qstate) : qstate :=
-  {| q_from := q_from s; q_insert_table := q_insert_table s; q_update_table := q_update_table s; q_with := q_with s; q_selects := q_selects s; q_select_star := q_select_star s; q_select_star_tables := q_select_star_tables s; q_joins := q_joins s; q_wheres := v; q_prewheres := q_prewheres s; q_havings := q_havings s; q_groupbys := q_groupbys s; q_orderbys := q_orderbys s; q_limit := q_limit s; q_offset := q_offset s; q_distinct := q_distinct s; q_for_update := q_for_update s; q_for_update_nowait := q_for_update_nowait s; q_for_update_skip_locked := q_for_update_skip_locked s; q_for_update_of := q_for_update_of s; q_force_indexes := q_force_indexes s; q_use_indexes := q_use_indexes s; q_updates := q_updates s; q_columns := q_columns s; q_values := q_values s; q_replace := q_replace s; q_select_into := q_select_into s; q_subquery_count := q_subquery_count s; q_foreign_table := q_foreign_table s; q_mysql_rollup := q_mysql_rollup s; q_hint := q_hint s; q_modifiers := q_modifiers s; q_final := q_final s; q_sample := q_sample s; q_sample_offset := q_sample_offset s; q_limit_by := q_limit_by s; q_distinct_on := q_distinct_on s; q_insert_or_replace := q_insert_or_replace s |}.
+  {| q_from := q_from s; q_insert_table := q_insert_table s; q_update_table := q_update_table s; q_with := q_with s; q_selects := q_selects s; q_select_star := q_select_star s; q_select_star_tables := q_select_star_tables s; q_joins := q_joins s; q_wheres := v; q_prewheres := q_prewheres s; q_havings := q_havings s; q_groupbys := q_groupbys s; q_orderbys := q_orderbys s; q_limit := q_limit s; q_offset := q_offset s; q_distinct := q_distinct s; q_for_update := q_for_update s; q_for_update_nowait := q_for_update_nowait s; q_for_update_skip_locked := q_for_update_skip_locked s; q_for_update_of := q_for_update_of s; q_force_indexes := q_force_indexes s; q_use_indexes := q_use_indexes s; q_updates := q_updates s; q_columns := q_columns s; q_values := q_values s; q_replace := q_replace s; q_select_into := q_select_into s; q_subquery_count := q_subquery_count s; q_foreign_table := q_foreign_table s; q_mysql_rollup := q_mysql_rollup s; q_hint := q_hint s; q_modifiers := q_modifiers s; q_final := q_final s; q_sample := q_sample s; q_sample_offset := q_sample_offset s; q_limit_by := q_limit_by s; q_distinct_on := q_distinct_on s; q_insert_or_replace := q_insert_or_replace s; q_top := q_top s; q_top_percent := q_top_percent s; q_top_with_ties := q_top_with_ties s |}.
 Definition set_prewheres (v : option term) (s : qstate) : qstate :=
-  {| q_from := q_from s; q_insert_table := q_insert_table s; q_update_table := q_update_table s; q_with := q_with s; q_selects := q_selects s; q_select_star := q_select_star s; q_select_star_tables := q_select_star_tables s; q_joins := q_joins s; q_wheres := q_wheres s; q_prewheres := v; q_havings := q_havings s; q_groupbys := q_groupbys s; q_orderbys := q_orderbys s; q_limit := q_limit s; q_offset := q_offset s; q_distinct := q_distinct s; q_for_update := q_for_update s; q_for_update_nowait := q_for_update_nowait s; q_for_update_skip_locked := q_for_update_skip_locked s; q_for_update_of := q_for_update_of s; q_force_indexes := q_force_indexes s; q_use_indexes := q_use_indexes s; q_updates := q_updates s; q_columns := q_columns s; q_values := q_values s; q_replace := q_replace s; q_select_into := q_select_into s; q_subquery_count := q_subquery_count s; q_foreign_table := q_foreign_table s; q_mysql_rollup := q_mysql_rollup s; q_hint := q_hint s; q_modifiers := q_modifiers s; q_final := q_final s; q_sample := q_sample s; q_sample_offset := q_sample_offset s; q_limit_by := q_limit_by s; q_distinct_on := q_distinct_on s; q_insert_or_replace := q_insert_or_replace s |}.
+  {| q_from := q_from s; q_insert_table := q_insert_table s; q_update_table := q_update_table s; q_with := q_with s; q_selects := q_selects s; q_select_star := q_select_star s; q_select_star_tables := q_select_star_tables s; q_joins := q_joins s; q_wheres := q_wheres s; q_prewheres := v; q_havings := q_havings s; q_groupbys := q_groupbys s; q_orderbys := q_orderbys s; q_limit := q_limit s; q_offset := q_offset s; q_distinct := q_distinct s; q_for_update := q_for_update s; q_for_update_nowait := q_for_update_nowait s; q_for_update_skip_locked := q_for_update_skip_locked s; q_for_update_of := q_for_update_of s; q_force_indexes := q_force_indexes s; q_use_indexes := q_use_indexes s; q_updates := q_updates s; q_columns := q_columns s; q_values := q_values s; q_replace := q_replace s; q_select_into := q_select_into s; q_subquery_count := q_subquery_count s; q_foreign_table := q_foreign_table s; q_mysql_rollup := q_mysql_rollup s; q_hint := q_hint s; q_modifiers := q_modifiers s; q_final := q_final s; q_sample := q_sample s; q_sample_offset := q_sample_offset s; q_limit_by := q_limit_by s; q_distinct_on := q_distinct_on s; q_insert_or_replace := q_insert_or_replace s; q_top := q_top s; q_top_percent := q_top_percent s; q_top_with_ties := q_top_with_ties s |}.
 Definition set_havings (v : option term) (s : qstate) : qstate :=
-  {| q_from := q_from s; q_insert_table := q_insert_table s; q_update_table := q_update_table s; q_with := q_with s; q_selects := q_selects s; q_select_star := q_select_star s; q_select_star_tables := q_select_star_tables s; q_joins := q_joins s; q_wheres := q_wheres s; q_prewheres := q_prewheres s; q_havings := v; q_groupbys := q_groupbys s; q_orderbys := q_orderbys s; q_limit := q_limit s; q_offset := q_offset s; q_distinct := q_distinct s; q_for_update := q_for_update s; q_for_update_nowait := q_for_update_nowait s; q_for_update_skip_locked := q_for_update_skip_locked s; q_for_update_of := q_for_update_of s; q_force_indexes := q_force_indexes s; q_use_indexes := q_use_indexes s; q_updates := q_updates s; q_columns := q_columns s; q_values := q_values s; q_replace := q_replace s; q_select_into := q_select_into s; q_subquery_count := q_subquery_count s; q_foreign_table := q_foreign_table s; q_mysql_rollup := q_mysql_rollup s; q_hint := q_hint s; q_modifiers := q_modifiers s; q_final := q_final s; q_sample := q_sample s; q_sample_offset := q_sample_offset s; q_limit_by := q_limit_by s; q_distinct_on := q_distinct_on s; q_insert_or_replace := q_insert_or_replace s |}.
+  {| q_from := q_from s; q_insert_table := q_insert_table s; q_update_table := q_update_table s; q_with := q_with s; q_selects := q_selects s; q_select_star := q_select_star s; q_select_star_tables := q_select_star_tables s; q_joins := q_joins s; q_wheres := q_wheres s; q_prewheres := q_prewheres s; q_havings := v; q_groupbys := q_groupbys s; q_orderbys := q_orderbys s; q_limit := q_limit s; q_offset := q_offset s; q_distinct := q_distinct s; q_for_update := q_for_update s; q_for_update_nowait := q_for_update_nowait s; q_for_update_skip_locked := q_for_update_skip_locked s; q_for_update_of := q_for_update_of s; q_force_indexes := q_force_indexes s; q_use_indexes := q_use_indexes s; q_updates := q_updates s; q_columns := q_columns s; q_values := q_values s; q_replace := q_replace s; q_select_into := q_select_into s; q_subquery_count := q_subquery_count s; q_foreign_table := q_foreign_table s; q_mysql_rollup := q_mysql_rollup s; q_hint := q_hint s; q_modifiers := q_modifiers s; q_final := q_final s; q_sample := q_sample s; q_sample_offset := q_sample_offset s; q_limit_by := q_limit_by s; q_distinct_on := q_distinct_on s; q_insert_or_replace := q_insert_or_replace s; q_top := q_top s; q_top_percent := q_top_percent s; q_top_with_ties := q_top_with_ties s |}.
 Definition set_groupbys (v : list term) (s : qstate) : qstate :=
-  {| q_from := q_from s; q_insert_table := q_insert_table s; q_update_table := q_update_table s; q_with := q_with s; q_selects := q_selects s; q_select_star := q_select_star s; q_select_star_tables := q_select_star_tables s; q_joins := q_joins s; q_wheres := q_wheres s; q_prewheres := q_prewheres s; q_havings := q_havings s; q_groupbys := v; q_orderbys := q_orderbys s; q_limit := q_limit s; q_offset := q_offset s; q_distinct := q_distinct s; q_for_update := q_for_update s; q_for_update_nowait := q_for_update_nowait s; q_for_update_skip_locked := q_for_update_skip_locked s; q_for_update_of := q_for_update_of s; q_force_indexes := q_force_indexes s; q_use_indexes := q_use_indexes s; q_updates := q_updates s; q_columns := q_columns s; q_values := q_values s; q_replace := q_replace s; q_select_into := q_select_into s; q_subquery_count := q_subquery_count s; q_foreign_table := q_foreign_table s; q_mysql_rollup := q_mysql_rollup s; q_hint := q_hint s; q_modifiers := q_modifiers s; q_final := q_final s; q_sample := q_sample s; q_sample_offset := q_sample_offset s; q_limit_by := q_limit_by s; q_distinct_on := q_distinct_on s; q_insert_or_replace := q_insert_or_replace s |}.
+  {| q_from := q_from s; q_insert_table := q_insert_table s; q_update_table := q_update_table s; q_with := q_with s; q_selects := q_selects s; q_select_star := q_select_star s; q_select_star_tables := q_select_star_tables s; q_joins := q_joins s; q_wheres := q_wheres s; q_prewheres := q_prewheres s; q_havings := q_havings s; q_groupbys := v; q_orderbys := q_orderbys s; q_limit := q_limit s; q_offset := q_offset s; q_distinct := q_distinct s; q_for_update := q_for_update s; q_for_update_nowait := q_for_update_nowait s; q_for_update_skip_locked := q_for_update_skip_locked s; q_for_update_of := q_for_update_of s; q_force_indexes := q_force_indexes s; q_use_indexes := q_use_indexes s; q_updates := q_updates s; q_columns := q_columns s; q_values := q_values s; q_replace := q_replace s; q_select_into := q_select_into s; q_subquery_count := q_subquery_count s; q_foreign_table := q_foreign_table s; q_mysql_rollup := q_mysql_rollup s; q_hint := q_hint s; q_modifiers := q_modifiers s; q_final := q_final s; q_sample := q_sample s; q_sample_offset := q_sample_offset s; q_limit_by := q_limit_by s; q_distinct_on := q_distinct_on s; q_insert_or_replace := q_insert_or_replace s; q_top := q_top s; q_top_percent := q_top_percent s; q_top_with_ties := q_top_with_ties s |}.
 Definition set_orderbys (v : list (term * option string)) (s : qstate) : qstate :=
-  {| q_from := q_from s; q_insert_table := q_insert_table s; q_update_table := q_update_table s; q_with := q_with s; q_selects := q_selects s; q_select_star := q_select_star s; q_select_star_tables := q_select_star_tables s; q_joins := q_joins s; q_wheres := q_wheres s; q_prewheres := q_prewheres s; q_havings := q_havings s; q_groupbys := q_groupbys s; q_orderbys := v; q_limit := q_limit s; q_offset := q_offset s; q_distinct := q_distinct s; q_for_update := q_for_update s; q_for_update_nowait := q_for_update_nowait s; q_for_update_skip_locked := q_for_update_skip_locked s; q_for_update_of := q_for_update_of s; q_force_indexes := q_force_indexes s; q_use_indexes := q_use_indexes s; q_updates := q_updates s; q_columns := q_columns s; q_values := q_values s; q_replace := q_replace s; q_select_into := q_select_into s; q_subquery_count := q_subquery_count s; q_foreign_table := q_foreign_table s; q_mysql_rollup := q_mysql_rollup s; q_hint := q_hint s; q_modifiers := q_modifiers s; q_final := q_final s; q_sample := q_sample s; q_sample_offset := q_sample_offset s; q_limit_by := q_limit_by s; q_distinct_on := q_distinct_on s; q_insert_or_replace := q_insert_or_replace s |}.
+  {| q_from := q_from s; q_insert_table := q_insert_table s; q_update_table := q_update_table s; q_with := q_with s; q_selects := q_selects s; q_select_star := q_select_star s; q_select_star_tables := q_select_star_tables s; q_joins := q_joins s; q_wheres := q_wheres s; q_prewheres := q_prewheres s; q_havings := q_havings s; q_groupbys := q_groupbys s; q_orderbys := v; q_limit := q_limit s; q_offset := q_offset s; q_distinct := q_distinct s; q_for_update := q_for_update s; q_for_update_nowait := q_for_update_nowait s; q_for_update_skip_locked := q_for_update_skip_locked s; q_for_update_of := q_for_update_of s; q_force_indexes := q_force_indexes s; q_use_indexes := q_use_indexes s; q_updates := q_updates s; q_columns := q_columns s; q_values := q_values s; q_replace := q_replace s; q_select_into := q_select_into s; q_subquery_count := q_subquery_count s; q_foreign_table := q_foreign_table s; q_mysql_rollup := q_mysql_rollup s; q_hint := q_hint s; q_modifiers := q_modifiers s; q_final := q_final s; q_sample := q_sample s; q_sample_offset := q_sample_offset s; q_limit_by := q_limit_by s; q_distinct_on := q_distinct_on s; q_insert_or_replace := q_insert_or_replace s; q_top := q_top s; q_top_percent := q_top_percent s; q_top_with_ties := q_top_with_ties s |}.
 Definition set_limit (v : option Z) (s : qstate) : qstate :=
-  {| q_from := q_from s; q_insert_table := q_insert_table s; q_update_table := q_update_table s; q_with := q_with s; q_selects := q_selects s; q_select_star := q_select_star s; q_select_star_tables := q_select_star_tables s; q_joins := q_joins s; q_wheres := q_wheres s; q_prewheres := q_prewheres s; q_havings := q_havings s; q_groupbys := q_groupbys s; q_orderbys := q_orderbys s; q_limit := v; q_offset := q_offset s; q_distinct := q_distinct s; q_for_update := q_for_update s; q_for_update_nowait := q_for_update_nowait s; q_for_update_skip_locked := q_for_update_skip_locked s; q_for_update_of := q_for_update_of s; q_force_indexes := q_force_indexes s; q_use_indexes := q_use_indexes s; q_updates := q_updates s; q_columns := q_columns s; q_values := q_values s; q_replace := q_replace s; q_select_into := q_select_into s; q_subquery_count := q_subquery_count s; q_foreign_table := q_foreign_table s; q_mysql_rollup := q_mysql_rollup s; q_hint := q_hint s; q_modifiers := q_modifiers s; q_final := q_final s; q_sample := q_sample s; q_sample_offset := q_sample_offset s; q_limit_by := q_limit_by s; q_distinct_on := q_distinct_on s; q_insert_or_replace := q_insert_or_replace s |}.
+  {| q_from := q_from s; q_insert_table := q_insert_table s; q_update_table := q_update_table s; q_with := q_with s; q_selects := q_selects s; q_select_star := q_select_star s; q_select_star_tables := q_select_star_tables s; q_joins := q_joins s; q_wheres := q_wheres s; q_prewheres := q_prewheres s; q_havings := q_havings s; q_groupbys := q_groupbys s; q_orderbys := q_orderbys s; q_limit := v; q_offset := q_offset s; q_distinct := q_distinct s; q_for_update := q_for_update s; q_for_update_nowait := q_for_update_nowait s; q_for_update_skip_locked := q_for_update_skip_locked s; q_for_update_of := q_for_update_of s; q_force_indexes := q_force_indexes s; q_use_indexes := q_use_indexes s; q_updates := q_updates s; q_columns := q_columns s; q_values := q_values s; q_replace := q_replace s; q_select_into := q_select_into s; q_subquery_count := q_subquery_count s; q_foreign_table := q_foreign_table s; q_mysql_rollup := q_mysql_rollup s; q_hint := q_hint s; q_modifiers := q_modifiers s; q_final := q_final s; q_sample := q_sample s; q_sample_offset := q_sample_offset s; q_limit_by := q_limit_by s; q_distinct_on := q_distinct_on s; q_insert_or_replace := q_insert_or_replace s; q_top := q_top s; q_top_percent := q_top_percent s; q_top_with_ties := q_top_with_ties s |}.
 Definition set_offset (v : option Z) (s : qstate) : qstate :=
-  {| q_from := q_from s; q_insert_table := q_insert_table s; q_update_table := q_update_table s; q_with := q_with s; q_selects := q_selects s; q_select_star := q_select_star s; q_select_star_tables := q_select_star_tables s; q_joins := q_joins s; q_wheres := q_wheres s; q_prewheres := q_prewheres s; q_havings := q_havings s; q_groupbys := q_groupbys s; q_orderbys := q_orderbys s; q_limit := q_limit s; q_offset := v; q_distinct := q_distinct s; q_for_update := q_for_update s; q_for_update_nowait := q_for_update_nowait s; q_for_update_skip_locked := q_for_update_skip_locked s; q_for_update_of := q_for_update_of s; q_force_indexes := q_force_indexes s; q_use_indexes := q_use_indexes s; q_updates := q_updates s; q_columns := q_columns s; q_values := q_values s; q_replace := q_replace s; q_select_into := q_select_into s; q_subquery_count := q_subquery_count s; q_foreign_table := q_foreign_table s; q_mysql_rollup := q_mysql_rollup s; q_hint := q_hint s; q_modifiers := q_modifiers s; q_final := q_final s; q_sample := q_sample s; q_sample_offset := q_sample_offset s; q_limit_by := q_limit_by s; q_distinct_on := q_distinct_on s; q_insert_or_replace := q_insert_or_replace s |}.
+  {| q_from := q_from s; q_insert_table := q_insert_table s; q_update_table := q_update_table s; q_with := q_with s; q_selects := q_selects s; q_select_star := q_select_star s; q_select_star_tables := q_select_star_tables s; q_joins := q_joins s; q_wheres := q_wheres s; q_prewheres := q_prewheres s; q_havings := q_havings s; q_groupbys := q_groupbys s; q_orderbys := q_orderbys s; q_limit := q_limit s; q_offset := v; q_distinct := q_distinct s; q_for_update := q_for_update s; q_for_update_nowait := q_for_update_nowait s; q_for_update_skip_locked := q_for_update_skip_locked s; q_for_update_of := q_for_update_of s; q_force_indexes := q_force_indexes s; q_use_indexes := q_use_indexes s; q_updates := q_updates s; q_columns := q_columns s; q_values := q_values s; q_replace := q_replace s; q_select_into := q_select_into s; q_subquery_count := q_subquery_count s; q_foreign_table := q_foreign_table s; q_mysql_rollup := q_mysql_rollup s; q_hint := q_hint s; q_modifiers := q_modifiers s; q_final := q_final s; q_sample := q_sample s; q_sample_offset := q_sample_offset s; q_limit_by := q_limit_by s; q_distinct_on := q_distinct_on s; q_insert_or_replace := q_insert_or_replace s; q_top := q_top s; q_top_percent := q_top_percent s; q_top_with_ties := q_top_with_ties s |}.
 Definition set_distinct (v : bool) (s : qstate) : qstate :=
-  {| q_from := q_from s; q_insert_table := q_insert_table s; q_update_table := q_update_table s; q_with := q_with s; q_selects := q_selects s; q_select_star := q_select_star s; q_select_star_tables := q_select_star_tables s; q_joins := q_joins s; q_wheres := q_wheres s; q_prewheres := q_prewheres s; q_havings := q_havings s; q_groupbys := q_groupbys s; q_orderbys := q_orderbys s; q_limit := q_limit s; q_offset := q_offset s; q_distinct := v; q_for_update := q_for_update s; q_for_update_nowait := q_for_update_nowait s; q_for_update_skip_locked := q_for_update_skip_locked s; q_for_update_of := q_for_update_of s; q_force_indexes := q_force_indexes s; q_use_indexes := q_use_indexes s; q_updates := q_updates s; q_columns := q_columns s; q_values := q_values s; q_replace := q_replace s; q_select_into := q_select_into s; q_subquery_count := q_subquery_count s; q_foreign_table := q_foreign_table s; q_mysql_rollup := q_mysql_rollup s; q_hint := q_hint s; q_modifiers := q_modifiers s; q_final := q_final s; q_sample := q_sample s; q_sample_offset := q_sample_offset s; q_limit_by := q_limit_by s; q_distinct_on := q_distinct_on s; q_insert_or_replace := q_insert_or_replace s |}.
+  {| q_from := q_from s; q_insert_table := q_insert_table s; q_update_table := q_update_table s; q_with := q_with s; q_selects := q_selects s; q_select_star := q_select_star s; q_select_star_tables := q_select_star_tables s; q_joins := q_joins s; q_wheres := q_wheres s; q_prewheres := q_prewheres s; q_havings := q_havings s; q_groupbys := q_groupbys s; q_orderbys := q_orderbys s; q_limit := q_limit s; q_offset := q_offset s; q_distinct := v; q_for_update := q_for_update s; q_for_update_nowait := q_for_update_nowait s; q_for_update_skip_locked := q_for_update_skip_locked s; q_for_update_of := q_for_update_of s; q_force_indexes := q_force_indexes s; q_use_indexes := q_use_indexes s; q_updates := q_updates s; q_columns := q_columns s; q_values := q_values s; q_replace := q_replace s; q_select_into := q_select_into s; q_subquery_count := q_subquery_count s; q_foreign_table := q_foreign_table s; q_mysql_rollup := q_mysql_rollup s; q_hint := q_hint s; q_modifiers := q_modifiers s; q_final := q_final s; q_sample := q_sample s; q_sample_offset := q_sample_offset s; q_limit_by := q_limit_by s; q_distinct_on := q_distinct_on s; q_insert_or_replace := q_insert_or_replace s; q_top := q_top s; q_top_percent := q_top_percent s; q_top_with_ties := q_top_with_ties s |}.
 Definition set_for_update (v : bool) (s : qstate) : qstate :=
-  {| q_from := q_from s; q_insert_table := q_insert_table s; q_update_table := q_update_table s; q_with := q_with s; q_selects := q_selects s; q_select_star := q_select_star s; q_select_star_tables := q_select_star_tables s; q_joins := q_joins s; q_wheres := q_wheres s; q_prewheres := q_prewheres s; q_havings := q_havings s; q_groupbys := q_groupbys s; q_orderbys := q_orderbys s; q_limit := q_limit s; q_offset := q_offset s; q_distinct := q_distinct s; q_for_update := v; q_for_update_nowait := q_for_update_nowait s; q_for_update_skip_locked := q_for_update_skip_locked s; q_for_update_of := q_for_update_of s; q_force_indexes := q_force_indexes s; q_use_indexes := q_use_indexes s; q_updates := q_updates s; q_columns := q_columns s; q_values := q_values s; q_replace := q_replace s; q_select_into := q_select_into s; q_subquery_count := q_subquery_count s; q_foreign_table := q_foreign_table s; q_mysql_rollup := q_mysql_rollup s; q_hint := q_hint s; q_modifiers := q_modifiers s; q_final := q_final s; q_sample := q_sample s; q_sample_offset := q_sample_offset s; q_limit_by := q_limit_by s; q_distinct_on := q_distinct_on s; q_insert_or_replace := q_insert_or_replace s |}.
+  {| q_from := q_from s; q_insert_table := q_insert_table s; q_update_table := q_update_table s; q_with := q_with s; q_selects := q_selects s; q_select_star := q_select_star s; q_select_star_tables := q_select_star_tables s; q_joins := q_joins s; q_wheres := q_wheres s; q_prewheres := q_prewheres s; q_havings := q_havings s; q_groupbys := q_groupbys s; q_orderbys := q_orderbys s; q_limit := q_limit s; q_offset := q_offset s; q_distinct := q_distinct s; q_for_update := v; q_for_update_nowait := q_for_update_nowait s; q_for_update_skip_locked := q_for_update_skip_locked s; q_for_update_of := q_for_update_of s; q_force_indexes := q_force_indexes s; q_use_indexes := q_use_indexes s; q_updates := q_updates s; q_columns := q_columns s; q_values := q_values s; q_replace := q_replace s; q_select_into := q_select_into s; q_subquery_count := q_subquery_count s; q_foreign_table := q_foreign_table s; q_mysql_rollup := q_mysql_rollup s; q_hint := q_hint s; q_modifiers := q_modifiers s; q_final := q_final s; q_sample := q_sample s; q_sample_offset := q_sample_offset s; q_limit_by := q_limit_by s; q_distinct_on := q_distinct_on s; q_insert_or_replace := q_insert_or_replace s; q_top := q_top s; q_top_percent := q_top_percent s; q_top_with_ties := q_top_with_ties s |}.
 Definition set_for_update_nowait (v : bool) (s : qstate) : qstate :=
-  {| q_from := q_from s; q_insert_table := q_insert_table s; q_update_table := q_update_table s; q_with := q_with s; q_selects := q_selects s; q_select_star := q_select_star s; q_select_star_tables := q_select_star_tables s; q_joins := q_joins s; q_wheres := q_wheres s; q_prewheres := q_prewheres s; q_havings := q_havings s; q_groupbys := q_groupbys s; q_orderbys := q_orderbys s; q_limit := q_limit s; q_offset := q_offset s; q_distinct := q_distinct s; q_for_update := q_for_update s; q_for_update_nowait := v; q_for_update_skip_locked := q_for_update_skip_locked s; q_for_update_of := q_for_update_of s; q_force_indexes := q_force_indexes s; q_use_indexes := q_use_indexes s; q_updates := q_updates s; q_columns := q_columns s; q_values := q_values s; q_replace := q_replace s; q_select_into := q_select_into s; q_subquery_count := q_subquery_count s; q_foreign_table := q_foreign_table s; q_mysql_rollup := q_mysql_rollup s; q_hint := q_hint s; q_modifiers := q_modifiers s; q_final := q_final s; q_sample := q_sample s; q_sample_offset := q_sample_offset s; q_limit_by := q_limit_by s; q_distinct_on := q_distinct_on s; q_insert_or_replace := q_insert_or_replace s |}.
+  {| q_from := q_from s; q_insert_table := q_insert_table s; q_update_table := q_update_table s; q_with := q_with s; q_selects := q_selects s; q_select_star := q_select_star s; q_select_star_tables := q_select_star_tables s; q_joins := q_joins s; q_wheres := q_wheres s; q_prewheres := q_prewheres s; q_havings := q_havings s; q_groupbys := q_groupbys s; q_orderbys := q_orderbys s; q_limit := q_limit s; q_offset := q_offset s; q_distinct := q_distinct s; q_for_update := q_for_update s; q_for_update_nowait := v; q_for_update_skip_locked := q_for_update_skip_locked s; q_for_update_of := q_for_update_of s; q_force_indexes := q_force_indexes s; q_use_indexes := q_use_indexes s; q_updates := q_updates s; q_columns := q_columns s; q_values := q_values s; q_replace := q_replace s; q_select_into := q_select_into s; q_subquery_count := q_subquery_count s; q_foreign_table := q_foreign_table s; q_mysql_rollup := q_mysql_rollup s; q_hint := q_hint s; q_modifiers := q_modifiers s; q_final := q_final s; q_sample := q_sample s; q_sample_offset := q_sample_offset s; q_limit_by := q_limit_by s; q_distinct_on := q_distinct_on s; q_insert_or_replace := q_insert_or_replace s; q_top := q_top s; q_top_percent := q_top_percent s; q_top_with_ties := q_top_with_ties s |}.
 Definition set_for_update_skip_locked (v : bool) (s : qstate) : qstate :=
-  {| q_from := q_from s; q_insert_table := q_insert_table s; q_update_table := q_update_table s; q_with := q_with s; q_selects := q_selects s; q_select_star := q_select_star s; q_select_star_tables := q_select_star_tables s; q_joins := q_joins s; q_wheres := q_wheres s; q_prewheres := q_prewheres s; q_havings := q_havings s; q_groupbys := q_groupbys s; q_orderbys := q_orderbys s; q_limit := q_limit s; q_offset := q_offset s; q_distinct := q_distinct s; q_for_update := q_for_update s; q_for_update_nowait := q_for_update_nowait s; q_for_update_skip_locked := v; q_for_update_of := q_for_update_of s; q_force_indexes := q_force_indexes s; q_use_indexes := q_use_indexes s; q_updates := q_updates s; q_columns := q_columns s; q_values := q_values s; q_replace := q_replace s; q_select_into := q_select_into s; q_subquery_count := q_subquery_count s; q_foreign_table := q_foreign_table s; q_mysql_rollup := q_mysql_rollup s; q_hint := q_hint s; q_modifiers := q_modifiers s; q_final := q_final s; q_sample := q_sample s; q_sample_offset := q_sample_offset s; q_limit_by := q_limit_by s; q_distinct_on := q_distinct_on s; q_insert_or_replace := q_insert_or_replace s |}.
+  {| q_from := q_from s; q_insert_table := q_insert_table s; q_update_table := q_update_table s; q_with := q_with s; q_selects := q_selects s; q_select_star := q_select_star s; q_select_star_tables := q_select_star_tables s; q_joins := q_joins s; q_wheres := q_wheres s; q_prewheres := q_prewheres s; q_havings := q_havings s; q_groupbys := q_groupbys s; q_orderbys := q_orderbys s; q_limit := q_limit s; q_offset := q_offset s; q_distinct := q_distinct s; q_for_update := q_for_update s; q_for_update_nowait := q_for_update_nowait s; q_for_update_skip_locked := v; q_for_update_of := q_for_update_of s; q_force_indexes := q_force_indexes s; q_use_indexes := q_use_indexes s; q_updates := q_updates s; q_columns := q_columns s; q_values := q_values s; q_replace := q_replace s; q_select_into := q_select_into s; q_subquery_count := q_subquery_count s; q_foreign_table := q_foreign_table s; q_mysql_rollup := q_mysql_rollup s; q_hint := q_hint s; q_modifiers := q_modifiers s; q_final := q_final s; q_sample := q_sample s; q_sample_offset := q_sample_offset s; q_limit_by := q_limit_by s; q_distinct_on := q_distinct_on s; q_insert_or_replace := q_insert_or_replace s; q_top := q_top s; q_top_percent := q_top_percent s; q_top_with_ties := q_top_with_ties s |}.
 Definition set_for_update_of (v : list string) (s : qstate) : qstate :=
-  {| q_from := q_from s; q_insert_table := q_insert_table s; q_update_table := q_update_table s; q_with := q_with s; q_selects := q_selects s; q_select_star := q_select_star s; q_select_star_tables := q_select_star_tables s; q_joins := q_joins s; q_wheres := q_wheres s; q_prewheres := q_prewheres s; q_havings := q_havings s; q_groupbys := q_groupbys s; q_orderbys := q_orderbys s; q_limit := q_limit s; q_offset := q_offset s; q_distinct := q_distinct s; q_for_update := q_for_update s; q_for_update_nowait := q_for_update_nowait s; q_for_update_skip_locked := q_for_update_skip_locked s; q_for_update_of := v; q_force_indexes := q_force_indexes s; q_use_indexes := q_use_indexes s; q_updates := q_updates s; q_columns := q_columns s; q_values := q_values s; q_replace := q_replace s; q_select_into := q_select_into s; q_subquery_count := q_subquery_count s; q_foreign_table := q_foreign_table s; q_mysql_rollup := q_mysql_rollup s; q_hint := q_hint s; q_modifiers := q_modifiers s; q_final := q_final s; q_sample := q_sample s; q_sample_offset := q_sample_offset s; q_limit_by := q_limit_by s; q_distinct_on := q_distinct_on s; q_insert_or_replace := q_insert_or_replace s |}.
+  {| q_from := q_from s; q_insert_table := q_insert_table s; q_update_table := q_update_table s; q_with := q_with s; q_selects := q_selects s; q_select_star := q_select_star s; q_select_star_tables := q_select_star_tables s; q_joins := q_joins s; q_wheres := q_wheres s; q_prewheres := q_prewheres s; q_havings := q_havings s; q_groupbys := q_groupbys s; q_orderbys := q_orderbys s; q_limit := q_limit s; q_offset := q_offset s; q_distinct := q_distinct s; q_for_update := q_for_update s; q_for_update_nowait := q_for_update_nowait s; q_for_update_skip_locked := q_for_update_skip_locked s; q_for_update_of := v; q_force_indexes := q_force_indexes s; q_use_indexes := q_use_indexes s; q_updates := q_updates s; q_columns := q_columns s; q_values := q_values s; q_replace := q_replace s; q_select_into := q_select_into s; q_subquery_count := q_subquery_count s; q_foreign_table := q_foreign_table s; q_mysql_rollup := q_mysql_rollup s; q_hint := q_hint s; q_modifiers := q_modifiers s; q_final := q_final s; q_sample := q_sample s; q_sample_offset := q_sample_offset s; q_limit_by := q_limit_by s; q_distinct_on := q_distinct_on s; q_insert_or_replace := q_insert_or_replace s; q_top := q_top s; q_top_percent := q_top_percent s; q_top_with_ties := q_top_with_ties s |}.
 Definition set_force_indexes (v : list string) (s : qstate) : qstate :=
-  {| q_from := q_from s; q_insert_table := q_insert_table s; q_update_table := q_update_table s; q_with := q_with s; q_selects := q_selects s; q_select_star := q_select_star s; q_select_star_tables := q_select_star_tables s; q_joins := q_joins s; q_wheres := q_wheres s; q_prewheres := q_prewheres s; q_havings := q_havings s; q_groupbys := q_groupbys s; q_orderbys := q_orderbys s; q_limit := q_limit s; q_offset := q_offset s; q_distinct := q_distinct s; q_for_update := q_for_update s; q_for_update_nowait := q_for_update_nowait s; q_for_update_skip_locked := q_for_update_skip_locked s; q_for_update_of := q_for_update_of s; q_force_indexes := v; q_use_indexes := q_use_indexes s; q_updates := q_updates s; q_columns := q_columns s; q_values := q_values s; q_replace := q_replace s; q_select_into := q_select_into s; q_subquery_count := q_subquery_count s; q_foreign_table := q_foreign_table s; q_mysql_rollup := q_mysql_rollup s; q_hint := q_hint s; q_modifiers := q_modifiers s; q_final := q_final s; q_sample := q_sample s; q_sample_offset := q_sample_offset s; q_limit_by := q_limit_by s; q_distinct_on := q_distinct_on s; q_insert_or_replace := q_insert_or_replace s |}.
+  {| q_from := q_from s; q_insert_table := q_insert_table s; q_update_table := q_update_table s; q_with := q_with s; q_selects := q_selects s; q_select_star := q_select_star s; q_select_star_tables := q_select_star_tables s; q_joins := q_joins s; q_wheres := q_wheres s; q_prewheres := q_prewheres s; q_havings := q_havings s; q_groupbys := q_groupbys s; q_orderbys := q_orderbys s; q_limit := q_limit s; q_offset := q_offset s; q_distinct := q_distinct s; q_for_update := q_for_update s; q_for_update_nowait := q_for_update_nowait s; q_for_update_skip_locked := q_for_update_skip_locked s; q_for_update_of := q_for_update_of s; q_force_indexes := v; q_use_indexes := q_use_indexes s; q_updates := q_updates s; q_columns := q_columns s; q_values := q_values s; q_replace := q_replace s; q_select_into := q_select_into s; q_subquery_count := q_subquery_count s; q_foreign_table := q_foreign_table s; q_mysql_rollup := q_mysql_rollup s; q_hint := q_hint s; q_modifiers := q_modifiers s; q_final := q_final s; q_sample := q_sample s; q_sample_offset := q_sample_offset s; q_limit_by := q_limit_by s; q_distinct_on := q_distinct_on s; q_insert_or_replace := q_insert_or_replace s; q_top := q_top s; q_top_percent := q_top_percent s; q_top_with_ties := q_top_with_ties s |}.
 Definition set_use_indexes (v : list string) (s : qstate) : qstate :=
-  {| q_from := q_from s; q_insert_table := q_insert_table s; q_update_table := q_update_table s; q_with := q_with s; q_selects := q_selects s; q_select_star := q_select_star s; q_select_star_tables := q_select_star_tables s; q_joins := q_joins s; q_wheres := q_wheres s; q_prewheres := q_prewheres s; q_havings := q_havings s; q_groupbys := q_groupbys s; q_orderbys := q_orderbys s; q_limit := q_limit s; q_offset := q_offset s; q_distinct := q_distinct s; q_for_update := q_for_update s; q_for_update_nowait := q_for_update_nowait s; q_for_update_skip_locked := q_for_update_skip_locked s; q_for_update_of := q_for_update_of s; q_force_indexes := q_force_indexes s; q_use_indexes := v; q_updates := q_updates s; q_columns := q_columns s; q_values := q_values s; q_replace := q_replace s; q_select_into := q_select_into s; q_subquery_count := q_subquery_count s; q_foreign_table := q_foreign_table s; q_mysql_rollup := q_mysql_rollup s; q_hint := q_hint s; q_modifiers := q_modifiers s; q_final := q_final s; q_sample := q_sample s; q_sample_offset := q_sample_offset s; q_limit_by := q_limit_by s; q_distinct_on := q_distinct_on s; q_insert_or_replace := q_insert_or_replace s |}.
+  {| q_from := q_from s; q_insert_table := q_insert_table s; q_update_table := q_update_table s; q_with := q_with s; q_selects := q_selects s; q_select_star := q_select_star s; q_select_star_tables := q_select_star_tables s; q_joins := q_joins s; q_wheres := q_wheres s; q_prewheres := q_prewheres s; q_havings := q_havings s; q_groupbys := q_groupbys s; q_orderbys := q_orderbys s; q_limit := q_limit s; q_offset := q_offset s; q_distinct := q_distinct s; q_for_update := q_for_update s; q_for_update_nowait := q_for_update_nowait s; q_for_update_skip_locked := q_for_update_skip_locked s; q_for_update_of := q_for_update_of s; q_force_indexes := q_force_indexes s; q_use_indexes := v; q_updates := q_updates s; q_columns := q_columns s; q_values := q_values s; q_replace := q_replace s; q_select_into := q_select_into s; q_subquery_count := q_subquery_count s; q_foreign_table := q_foreign_table s; q_mysql_rollup := q_mysql_rollup s; q_hint := q_hint s; q_modifiers := q_modifiers s; q_final := q_final s; q_sample := q_sample s; q_sample_offset := q_sample_offset s; q_limit_by := q_limit_by s; q_distinct_on := q_distinct_on s; q_insert_or_replace := q_insert_or_replace s; q_top := q_top s; q_top_percent := q_top_percent s; q_top_with_ties := q_top_with_ties s |}.
 Definition set_updates (v : list (term * term)) (s : qstate) : qstate :=
-  {| q_from := q_from s; q_insert_table := q_insert_table s; q_update_table := q_update_table s; q_with := q_with s; q_selects := q_selects s; q_select_star := q_select_star s; q_select_star_tables := q_select_star_tables s; q_joins := q_joins s; q_wheres := q_wheres s; q_prewheres := q_prewheres s; q_havings := q_havings s; q_groupbys := q_groupbys s; q_orderbys := q_orderbys s; q_limit := q_limit s; q_offset := q_offset s; q_distinct := q_distinct s; q_for_update := q_for_update s; q_for_update_nowait := q_for_update_nowait s; q_for_update_skip_locked := q_for_update_skip_locked s; q_for_update_of := q_for_update_of s; q_force_indexes := q_force_indexes s; q_use_indexes := q_use_indexes s; q_updates := v; q_columns := q_columns s; q_values := q_values s; q_replace := q_replace s; q_select_into := q_select_into s; q_subquery_count := q_subquery_count s; q_foreign_table := q_foreign_table s; q_mysql_rollup := q_mysql_rollup s; q_hint := q_hint s; q_modifiers := q_modifiers s; q_final := q_final s; q_sample := q_sample s; q_sample_offset := q_sample_offset s; q_limit_by := q_limit_by s; q_distinct_on := q_distinct_on s; q_insert_or_replace := q_insert_or_replace s |}.
+  {| q_from := q_from s; q_insert_table := q_insert_table s; q_update_table := q_update_table s; q_with := q_with s; q_selects := q_selects s; q_select_star := q_select_star s; q_select_star_tables := q_select_star_tables s; q_joins := q_joins s; q_wheres := q_wheres s; q_prewheres := q_prewheres s; q_havings := q_havings s; q_groupbys := q_groupbys s; q_orderbys := q_orderbys s; q_limit := q_limit s; q_offset := q_offset s; q_distinct := q_distinct s; q_for_update := q_for_update s; q_for_update_nowait := q_for_update_nowait s; q_for_update_skip_locked := q_for_update_skip_locked s; q_for_update_of := q_for_update_of s; q_force_indexes := q_force_indexes s; q_use_indexes := q_use_indexes s; q_updates := v; q_columns := q_columns s; q_values := q_values s; q_replace := q_replace s; q_select_into := q_select_into s; q_subquery_count := q_subquery_count s; q_foreign_table := q_foreign_table s; q_mysql_rollup := q_mysql_rollup s; q_hint := q_hint s; q_modifiers := q_modifiers s; q_final := q_final s; q_sample := q_sample s; q_sample_offset := q_sample_offset s; q_limit_by := q_limit_by s; q_distinct_on := q_distinct_on s; q_insert_or_replace := q_insert_or_replace s; q_top := q_top s; q_top_percent := q_top_percent s; q_top_with_ties := q_top_with_ties s |}.
 Definition set_columns (v : list term) (s : qstate) : qstate :=
-  {| q_from := q_from s; q_insert_table := q_insert_table s; q_update_table := q_update_table s; q_with := q_with s; q_selects := q_selects s; q_select_star := q_select_star s; q_select_star_tables := q_select_star_tables s; q_joins := q_joins s; q_wheres := q_wheres s; q_prewheres := q_prewheres s; q_havings := q_havings s; q_groupbys := q_groupbys s; q_orderbys := q_orderbys s; q_limit := q_limit s; q_offset := q_offset s; q_distinct := q_distinct s; q_for_update := q_for_update s; q_for_update_nowait := q_for_update_nowait s; q_for_update_skip_locked := q_for_update_skip_locked s; q_for_update_of := q_for_update_of s; q_force_indexes := q_force_indexes s; q_use_indexes := q_use_indexes s; q_updates := q_updates s; q_columns := v; q_values := q_values s; q_replace := q_replace s; q_select_into := q_select_into s; q_subquery_count := q_subquery_count s; q_foreign_table := q_foreign_table s; q_mysql_rollup := q_mysql_rollup s; q_hint := q_hint s; q_modifiers := q_modifiers s; q_final := q_final s; q_sample := q_sample s; q_sample_offset := q_sample_offset s; q_limit_by := q_limit_by s; q_distinct_on := q_distinct_on s; q_insert_or_replace := q_insert_or_replace s |}.
+  {| q_from := q_from s; q_insert_table := q_insert_table s; q_update_table := q_update_table s; q_with := q_with s; q_selects := q_selects s; q_select_star := q_select_star s; q_select_star_tables := q_select_star_tables s; q_joins := q_joins s; q_wheres := q_wheres s; q_prewheres := q_prewheres s; q_havings := q_havings s; q_groupbys := q_groupbys s; q_orderbys := q_orderbys s; q_limit := q_limit s; q_offset := q_offset s; q_distinct := q_distinct s; q_for_update := q_for_update s; q_for_update_nowait := q_for_update_nowait s; q_for_update_skip_locked := q_for_update_skip_locked s; q_for_update_of := q_for_update_of s; q_force_indexes := q_force_indexes s; q_use_indexes := q_use_indexes s; q_updates := q_updates s; q_columns := v; q_values := q_values s; q_replace := q_replace s; q_select_into := q_select_into s; q_subquery_count := q_subquery_count s; q_foreign_table := q_foreign_table s; q_mysql_rollup := q_mysql_rollup s; q_hint := q_hint s; q_modifiers := q_modifiers s; q_final := q_final s; q_sample := q_sample s; q_sample_offset := q_sample_offset s; q_limit_by := q_limit_by s; q_distinct_on := q_distinct_on s; q_insert_or_replace := q_insert_or_replace s; q_top := q_top s; q_top_percent := q_top_percent s; q_top_with_ties := q_top_with_ties s |}.
 Definition set_values (v : list (list term)) (s : qstate) : qstate :=
-  {| q_from := q_from s; q_insert_table := q_insert_table s; q_update_table := q_update_table s; q_with := q_with s; q_selects := q_selects s; q_select_star := q_select_star s; q_select_star_tables := q_select_star_tables s; q_joins := q_joins s; q_wheres := q_wheres s; q_prewheres := q_prewheres s; q_havings := q_havings s; q_groupbys := q_groupbys s; q_orderbys := q_orderbys s; q_limit := q_limit s; q_offset := q_offset s; q_distinct := q_distinct s; q_for_update := q_for_update s; q_for_update_nowait := q_for_update_nowait s; q_for_update_skip_locked := q_for_update_skip_locked s; q_for_update_of := q_for_update_of s; q_force_indexes := q_force_indexes s; q_use_indexes := q_use_indexes s; q_updates := q_updates s; q_columns := q_columns s; q_values := v; q_replace := q_replace s; q_select_into := q_select_into s; q_subquery_count := q_subquery_count s; q_foreign_table := q_foreign_table s; q_mysql_rollup := q_mysql_rollup s; q_hint := q_hint s; q_modifiers := q_modifiers s; q_final := q_final s; q_sample := q_sample s; q_sample_offset := q_sample_offset s; q_limit_by := q_limit_by s; q_distinct_on := q_distinct_on s; q_insert_or_replace := q_insert_or_replace s |}.
+  {| q_from := q_from s; q_insert_table := q_insert_table s; q_update_table := q_update_table s; q_with := q_with s; q_selects := q_selects s; q_select_star := q_select_star s; q_select_star_tables := q_select_star_tables s; q_joins := q_joins s; q_wheres := q_wheres s; q_prewheres := q_prewheres s; q_havings := q_havings s; q_groupbys := q_groupbys s; q_orderbys := q_orderbys s; q_limit := q_limit s; q_offset := q_offset s; q_distinct := q_distinct s; q_for_update := q_for_update s; q_for_update_nowait := q_for_update_nowait s; q_for_update_skip_locked := q_for_update_skip_locked s; q_for_update_of := q_for_update_of s; q_force_indexes := q_force_indexes s; q_use_indexes := q_use_indexes s; q_updates := q_updates s; q_columns := q_columns s; q_values := v; q_replace := q_replace s; q_select_into := q_select_into s; q_subquery_count := q_subquery_count s; q_foreign_table := q_foreign_table s; q_mysql_rollup := q_mysql_rollup s; q_hint := q_hint s; q_modifiers := q_modifiers s; q_final := q_final s; q_sample := q_sample s; q_sample_offset := q_sample_offset s; q_limit_by := q_limit_by s; q_distinct_on := q_distinct_on s; q_insert_or_replace := q_insert_or_replace s; q_top := q_top s; q_top_percent := q_top_percent s; q_top_with_ties := q_top_with_ties s |}.
 Definition set_replace (v : bool) (s : qstate) : qstate :=
-  {| q_from := q_from s; q_insert_table := q_insert_table s; q_update_table := q_update_table s; q_with := q_with s; q_selects := q_selects s; q_select_star := q_select_star s; q_select_star_tables := q_select_star_tables s; q_joins := q_joins s; q_wheres := q_wheres s; q_prewheres := q_prewheres s; q_havings := q_havings s; q_groupbys := q_groupbys s; q_orderbys := q_orderbys s; q_limit := q_limit s; q_offset := q_offset s; q_distinct := q_distinct s; q_for_update := q_for_update s; q_for_update_nowait := q_for_update_nowait s; q_for_update_skip_locked := q_for_update_skip_locked s; q_for_update_of := q_for_update_of s; q_force_indexes := q_force_indexes s; q_use_indexes := q_use_indexes s; q_updates := q_updates s; q_columns := q_columns s; q_values := q_values s; q_replace := v; q_select_into := q_select_into s; q_subquery_count := q_subquery_count s; q_foreign_table := q_foreign_table s; q_mysql_rollup := q_mysql_rollup s; q_hint := q_hint s; q_modifiers := q_modifiers s; q_final := q_final s; q_sample := q_sample s; q_sample_offset := q_sample_offset s; q_limit_by := q_limit_by s; q_distinct_on := q_distinct_on s; q_insert_or_replace := q_insert_or_replace s |}.
+  {| q_from := q_from s; q_insert_table := q_insert_table s; q_update_table := q_update_table s; q_with := q_with s; q_selects := q_selects s; q_select_star := q_select_star s; q_select_star_tables := q_select_star_tables s; q_joins := q_joins s; q_wheres := q_wheres s; q_prewheres := q_prewheres s; q_havings := q_havings s; q_groupbys := q_groupbys s; q_orderbys := q_orderbys s; q_limit := q_limit s; q_offset := q_offset s; q_distinct := q_distinct s; q_for_update := q_for_update s; q_for_update_nowait := q_for_update_nowait s; q_for_update_skip_locked := q_for_update_skip_locked s; q_for_update_of := q_for_update_of s; q_force_indexes := q_force_indexes s; q_use_indexes := q_use_indexes s; q_updates := q_updates s; q_columns := q_columns s; q_values := q_values s; q_replace := v; q_select_into := q_select_into s; q_subquery_count := q_subquery_count s; q_foreign_table := q_foreign_table s; q_mysql_rollup := q_mysql_rollup s; q_hint := q_hint s; q_modifiers := q_modifiers s; q_final := q_final s; q_sample := q_sample s; q_sample_offset := q_sample_offset s; q_limit_by := q_limit_by s; q_distinct_on := q_distinct_on s; q_insert_or_replace := q_insert_or_replace s; q_top := q_top s; q_top_percent := q_top_percent s; q_top_with_ties := q_top_with_ties s |}.
 Definition set_select_into (v : bool) (s : qstate) : qstate :=
-  {| q_from := q_from s; q_insert_table := q_insert_table s; q_update_table := q_update_table s; q_with := q_with s; q_selects := q_selects s; q_select_star := q_select_star s; q_select_star_tables := q_select_star_tables s; q_joins := q_joins s; q_wheres := q_wheres s; q_prewheres := q_prewheres s; q_havings := q_havings s; q_groupbys := q_groupbys s; q_orderbys := q_orderbys s; q_limit := q_limit s; q_offset := q_offset s; q_distinct := q_distinct s; q_for_update := q_for_update s; q_for_update_nowait := q_for_update_nowait s; q_for_update_skip_locked := q_for_update_skip_locked s; q_for_update_of := q_for_update_of s; q_force_indexes := q_force_indexes s; q_use_indexes := q_use_indexes s; q_updates := q_updates s; q_columns := q_columns s; q_values := q_values s; q_replace := q_replace s; q_select_into := v; q_subquery_count := q_subquery_count s; q_foreign_table := q_foreign_table s; q_mysql_rollup := q_mysql_rollup s; q_hint := q_hint s; q_modifiers := q_modifiers s; q_final := q_final s; q_sample := q_sample s; q_sample_offset := q_sample_offset s; q_limit_by := q_limit_by s; q_distinct_on := q_distinct_on s; q_insert_or_replace := q_insert_or_replace s |}.
+  {| q_from := q_from s; q_insert_table := q_insert_table s; q_update_table := q_update_table s; q_with := q_with s; q_selects := q_selects s; q_select_star := q_select_star s; q_select_star_tables := q_select_star_tables s; q_joins := q_joins s; q_wheres := q_wheres s; q_prewheres := q_prewheres s; q_havings := q_havings s; q_groupbys := q_groupbys s; q_orderbys := q_orderbys s; q_limit := q_limit s; q_offset := q_offset s; q_distinct := q_distinct s; q_for_update := q_for_update s; q_for_update_nowait := q_for_update_nowait s; q_for_update_skip_locked := q_for_update_skip_locked s; q_for_update_of := q_for_update_of s; q_force_indexes := q_force_indexes s; q_use_indexes := q_use_indexes s; q_updates := q_updates s; q_columns := q_columns s; q_values := q_values s; q_replace := q_replace s; q_select_into := v; q_subquery_count := q_subquery_count s; q_foreign_table := q_foreign_table s; q_mysql_rollup := q_mysql_rollup s; q_hint := q_hint s; q_modifiers := q_modifiers s; q_final := q_final s; q_sample := q_sample s; q_sample_offset := q_sample_offset s; q_limit_by := q_limit_by s; q_distinct_on := q_distinct_on s; q_insert_or_replace := q_insert_or_replace s; q_top := q_top s; q_top_percent := q_top_percent s; q_top_with_ties := q_top_with_ties s |}.
 Definition set_subquery_count (v : Z) (s : qstate) : qstate :=
-  {| q_from := q_from s; q_insert_table := q_insert_table s; q_update_table := q_update_table s; q_with := q_with s; q_selects := q_selects s; q_select_star := q_select_star s; q_select_star_tables := q_select_star_tables s; q_joins := q_joins s; q_wheres := q_wheres s; q_prewheres := q_prewheres s; q_havings := q_havings s; q_groupbys := q_groupbys s; q_orderbys := q_orderbys s; q_limit := q_limit s; q_offset := q_offset s; q_distinct := q_distinct s; q_for_update := q_for_update s; q_for_update_nowait := q_for_update_nowait s; q_for_update_skip_locked := q_for_update_skip_locked s; q_for_update_of := q_for_update_of s; q_force_indexes := q_force_indexes s; q_use_indexes := q_use_indexes s; q_updates := q_updates s; q_columns := q_columns s; q_values := q_values s; q_replace := q_replace s; q_select_into := q_select_into s; q_subquery_count := v; q_foreign_table := q_foreign_table s; q_mysql_rollup := q_mysql_rollup s; q_hint := q_hint s; q_modifiers := q_modifiers s; q_final := q_final s; q_sample := q_sample s; q_sample_offset := q_sample_offset s; q_limit_by := q_limit_by s; q_distinct_on := q_distinct_on s; q_insert_or_replace := q_insert_or_replace s |}.
+  {| q_from := q_from s; q_insert_table := q_insert_table s; q_update_table := q_update_table s; q_with := q_with s; q_selects := q_selects s; q_select_star := q_select_star s; q_select_star_tables := q_select_star_tables s; q_joins := q_joins s; q_wheres := q_wheres s; q_prewheres := q_prewheres s; q_havings := q_havings s; q_groupbys := q_groupbys s; q_orderbys := q_orderbys s; q_limit := q_limit s; q_offset := q_offset s; q_distinct := q_distinct s; q_for_update := q_for_update s; q_for_update_nowait := q_for_update_nowait s; q_for_update_skip_locked := q_for_update_skip_locked s; q_for_update_of := q_for_update_of s; q_force_indexes := q_force_indexes s; q_use_indexes := q_use_indexes s; q_updates := q_updates s; q_columns := q_columns s; q_values := q_values s; q_replace := q_replace s; q_select_into := q_select_into s; q_subquery_count := v; q_foreign_table := q_foreign_table s; q_mysql_rollup := q_mysql_rollup s; q_hint := q_hint s; q_modifiers := q_modifiers s; q_final := q_final s; q_sample := q_sample s; q_sample_offset := q_sample_offset s; q_limit_by := q_limit_by s; q_distinct_on := q_distinct_on s; q_insert_or_replace := q_insert_or_replace s; q_top := q_top s; q_top_percent := q_top_percent s; q_top_with_ties := q_top_with_ties s |}.
 Definition set_foreign_table (v : bool) (s : qstate) : qstate :=
-  {| q_from := q_from s; q_insert_table := q_insert_table s; q_update_table := q_update_table s; q_with := q_with s; q_selects := q_selects s; q_select_star := q_select_star s; q_select_star_tables := q_select_star_tables s; q_joins := q_joins s; q_wheres := q_wheres s; q_prewheres := q_prewheres s; q_havings := q_havings s; q_groupbys := q_groupbys s; q_orderbys := q_orderbys s; q_limit := q_limit s; q_offset := q_offset s; q_distinct := q_distinct s; q_for_update := q_for_update s; q_for_update_nowait := q_for_update_nowait s; q_for_update_skip_locked := q_for_update_skip_locked s; q_for_update_of := q_for_update_of s; q_force_indexes := q_force_indexes s; q_use_indexes := q_use_indexes s; q_updates := q_updates s; q_columns := q_columns s; q_values := q_values s; q_replace := q_replace s; q_select_into := q_select_into s; q_subquery_count := q_subquery_count s; q_foreign_table := v; q_mysql_rollup := q_mysql_rollup s; q_hint := q_hint s; q_modifiers := q_modifiers s; q_final := q_final s; q_sample := q_sample s; q_sample_offset := q_sample_offset s; q_limit_by := q_limit_by s; q_distinct_on := q_distinct_on s; q_insert_or_replace := q_insert_or_replace s |}.
+  {| q_from := q_from s; q_insert_table := q_insert_table s; q_update_table := q_update_table s; q_with := q_with s; q_selects := q_selects s; q_select_star := q_select_star s; q_select_star_tables := q_select_star_tables s; q_joins := q_joins s; q_wheres := q_wheres s; q_prewheres := q_prewheres s; q_havings := q_havings s; q_groupbys := q_groupbys s; q_orderbys := q_orderbys s; q_limit := q_limit s; q_offset := q_offset s; q_distinct := q_distinct s; q_for_update := q_for_update s; q_for_update_nowait := q_for_update_nowait s; q_for_update_skip_locked := q_for_update_skip_locked s; q_for_update_of := q_for_update_of s; q_force_indexes := q_force_indexes s; q_use_indexes := q_use_indexes s; q_updates := q_updates s; q_columns := q_columns s; q_values := q_values s; q_replace := q_replace s; q_select_into := q_select_into s; q_subquery_count := q_subquery_count s; q_foreign_table := v; q_mysql_rollup := q_mysql_rollup s; q_hint := q_hint s; q_modifiers := q_modifiers s; q_final := q_final s; q_sample := q_sample s; q_sample_offset := q_sample_offset s; q_limit_by := q_limit_by s; q_distinct_on := q_distinct_on s; q_insert_or_replace := q_insert_or_replace s; q_top := q_top s; q_top_percent := q_top_percent s; q_top_with_ties := q_top_with_ties s |}.
 Definition set_mysql_rollup (v : bool) (s : qstate) : qstate :=
-  {| q_from := q_from s; q_insert_table := q_insert_table s; q_update_table := q_update_table s; q_with := q_with s; q_selects := q_selects s; q_select_star := q_select_star s; q_select_star_tables := q_select_star_tables s; q_joins := q_joins s; q_wheres := q_wheres s; q_prewheres := q_prewheres s; q_havings := q_havings s; q_groupbys := q_groupbys s; q_orderbys := q_orderbys s; q_limit := q_limit s; q_offset := q_offset s; q_distinct := q_distinct s; q_for_update := q_for_update s; q_for_update_nowait := q_for_update_nowait s; q_for_update_skip_locked := q_for_update_skip_locked s; q_for_update_of := q_for_update_of s; q_force_indexes := q_force_indexes s; q_use_indexes := q_use_indexes s; q_updates := q_updates s; q_columns := q_columns s; q_values := q_values s; q_replace := q_replace s; q_select_into := q_select_into s; q_subquery_count := q_subquery_count s; q_foreign_table := q_foreign_table s; q_mysql_rollup := v; q_hint := q_hint s; q_modifiers := q_modifiers s; q_final := q_final s; q_sample := q_sample s; q_sample_offset := q_sample_offset s; q_limit_by := q_limit_by s; q_distinct_on := q_distinct_on s; q_insert_or_replace := q_insert_or_replace s |}.
+  {| q_from := q_from s; q_insert_table := q_insert_table s; q_update_table := q_update_table s; q_with := q_with s; q_selects := q_selects s; q_select_star := q_select_star s; q_select_star_tables := q_select_star_tables s; q_joins := q_joins s; q_wheres := q_wheres s; q_prewheres := q_prewheres s; q_havings := q_havings s; q_groupbys := q_groupbys s; q_orderbys := q_orderbys s; q_limit := q_limit s; q_offset := q_offset s; q_distinct := q_distinct s; q_for_update := q_for_update s; q_for_update_nowait := q_for_update_nowait s; q_for_update_skip_locked := q_for_update_skip_locked s; q_for_update_of := q_for_update_of s; q_force_indexes := q_force_indexes s; q_use_indexes := q_use_indexes s; q_updates := q_updates s; q_columns := q_columns s; q_values := q_values s; q_replace := q_replace s; q_select_into := q_select_into s; q_subquery_count := q_subquery_count s; q_foreign_table := q_foreign_table s; q_mysql_rollup := v; q_hint := q_hint s; q_modifiers := q_modifiers s; q_final := q_final s; q_sample := q_sample s; q_sample_offset := q_sample_offset s; q_limit_by := q_limit_by s; q_distinct_on := q_distinct_on s; q_insert_or_replace := q_insert_or_replace s; q_top := q_top s; q_top_percent := q_top_percent s; q_top_with_ties := q_top_with_ties s |}.
 Definition set_hint (v : option string) (s : qstate) : qstate :=
-  {| q_from := q_from s; q_insert_table := q_insert_table s; q_update_table := q_update_table s; q_with := q_with s; q_selects := q_selects s; q_select_star := q_select_star s; q_select_star_tables := q_select_star_tables s; q_joins := q_joins s; q_wheres := q_wheres s; q_prewheres := q_prewheres s; q_havings := q_havings s; q_groupbys := q_groupbys s; q_orderbys := q_orderbys s; q_limit := q_limit s; q_offset := q_offset s; q_distinct := q_distinct s; q_for_update := q_for_update s; q_for_update_nowait := q_for_update_nowait s; q_for_update_skip_locked := q_for_update_skip_locked s; q_for_update_of := q_for_update_of s; q_force_indexes := q_force_indexes s; q_use_indexes := q_use_indexes s; q_updates := q_updates s; q_columns := q_columns s; q_values := q_values s; q_replace := q_replace s; q_select_into := q_select_into s; q_subquery_count := q_subquery_count s; q_foreign_table := q_foreign_table s; q_mysql_rollup := q_mysql_rollup s; q_hint := v; q_modifiers := q_modifiers s; q_final := q_final s; q_sample := q_sample s; q_sample_offset := q_sample_offset s; q_limit_by := q_limit_by s; q_distinct_on := q_distinct_on s; q_insert_or_replace := q_insert_or_replace s |}.
+  {| q_from := q_from s; q_insert_table := q_insert_table s; q_update_table := q_update_table s; q_with := q_with s; q_selects := q_selects s; q_select_star := q_select_star s; q_select_star_tables := q_select_star_tables s; q_joins := q_joins s; q_wheres := q_wheres s; q_prewheres := q_prewheres s; q_havings := q_havings s; q_groupbys := q_groupbys s; q_orderbys := q_orderbys s; q_limit := q_limit s; q_offset := q_offset s; q_distinct := q_distinct s; q_for_update := q_for_update s; q_for_update_nowait := q_for_update_nowait s; q_for_update_skip_locked := q_for_update_skip_locked s; q_for_update_of := q_for_update_of s; q_force_indexes := q_force_indexes s; q_use_indexes := q_use_indexes s; q_updates := q_updates s; q_columns := q_columns s; q_values := q_values s; q_replace := q_replace s; q_select_into := q_select_into s; q_subquery_count := q_subquery_count s; q_foreign_table := q_foreign_table s; q_mysql_rollup := q_mysql_rollup s; q_hint := v; q_modifiers := q_modifiers s; q_final := q_final s; q_sample := q_sample s; q_sample_offset := q_sample_offset s; q_limit_by := q_limit_by s; q_distinct_on := q_distinct_on s; q_insert_or_replace := q_insert_or_replace s; q_top := q_top s; q_top_percent := q_top_percent s; q_top_with_ties := q_top_with_ties s |}.
 Definition set_modifiers (v : list string) (s : qstate) : qstate :=
-  {| q_from := q_from s; q_insert_table := q_insert_table s; q_update_table := q_update_table s; q_with := q_with s; q_selects := q_selects s; q_select_star := q_select_star s; q_select_star_tables := q_select_star_tables s; q_joins := q_joins s; q_wheres := q_wheres s; q_prewheres := q_prewheres s; q_havings := q_havings s; q_groupbys := q_groupbys s; q_orderbys := q_orderbys s; q_limit := q_limit s; q_offset := q_offset s; q_distinct := q_distinct s; q_for_update := q_for_update s; q_for_update_nowait := q_for_update_nowait s; q_for_update_skip_locked := q_for_update_skip_locked s; q_for_update_of := q_for_update_of s; q_force_indexes := q_force_indexes s; q_use_indexes := q_use_indexes s; q_updates := q_updates s; q_columns := q_columns s; q_values := q_values s; q_replace := q_replace s; q_select_into := q_select_into s; q_subquery_count := q_subquery_count s; q_foreign_table := q_foreign_table s; q_mysql_rollup := q_mysql_rollup s; q_hint := q_hint s; q_modifiers := v; q_final := q_final s; q_sample := q_sample s; q_sample_offset := q_sample_offset s; q_limit_by := q_limit_by s; q_distinct_on := q_distinct_on s; q_insert_or_replace := q_insert_or_replace s |}.
+  {| q_from := q_from s; q_insert_table := q_insert_table s; q_update_table := q_update_table s; q_with := q_with s; q_selects := q_selects s; q_select_star := q_select_star s; q_select_star_tables := q_select_star_tables s; q_joins := q_joins s; q_wheres := q_wheres s; q_prewheres := q_prewheres s; q_havings := q_havings s; q_groupbys := q_groupbys s; q_orderbys := q_orderbys s; q_limit := q_limit s; q_offset := q_offset s; q_distinct := q_distinct s; q_for_update := q_for_update s; q_for_update_nowait := q_for_update_nowait s; q_for_update_skip_locked := q_for_update_skip_locked s; q_for_update_of := q_for_update_of s; q_force_indexes := q_force_indexes s; q_use_indexes := q_use_indexes s; q_updates := q_updates s; q_columns := q_columns s; q_values := q_values s; q_replace := q_replace s; q_select_into := q_select_into s; q_subquery_count := q_subquery_count s; q_foreign_table := q_foreign_table s; q_mysql_rollup := q_mysql_rollup s; q_hint := q_hint s; q_modifiers := v; q_final := q_final s; q_sample := q_sample s; q_sample_offset := q_sample_offset s; q_limit_by := q_limit_by s; q_distinct_on := q_distinct_on s; q_insert_or_replace := q_insert_or_replace s; q_top := q_top s; q_top_percent := q_top_percent s; q_top_with_ties := q_top_with_ties s |}.
 Definition set_final (v : bool) (s : qstate) : qstate :=
-  {| q_from := q_from s; q_insert_table := q_insert_table s; q_update_table := q_update_table s; q_with := q_with s; q_selects := q_selects s; q_select_star := q_select_star s; q_select_star_tables := q_select_star_tables s; q_joins := q_joins s; q_wheres := q_wheres s; q_prewheres := q_prewheres s; q_havings := q_havings s; q_groupbys := q_groupbys s; q_orderbys := q_orderbys s; q_limit := q_limit s; q_offset := q_offset s; q_distinct := q_distinct s; q_for_update := q_for_update s; q_for_update_nowait := q_for_update_nowait s; q_for_update_skip_locked := q_for_update_skip_locked s; q_for_update_of := q_for_update_of s; q_force_indexes := q_force_indexes s; q_use_indexes := q_use_indexes s; q_updates := q_updates s; q_columns := q_columns s; q_values := q_values s; q_replace := q_replace s; q_select_into := q_select_into s; q_subquery_count := q_subquery_count s; q_foreign_table := q_foreign_table s; q_mysql_rollup := q_mysql_rollup s; q_hint := q_hint s; q_modifiers := q_modifiers s; q_final := v; q_sample := q_sample s; q_sample_offset := q_sample_offset s; q_limit_by := q_limit_by s; q_distinct_on := q_distinct_on s; q_insert_or_replace := q_insert_or_replace s |}.
+  {| q_from := q_from s; q_insert_table := q_insert_table s; q_update_table := q_update_table s; q_with := q_with s; q_selects := q_selects s; q_select_star := q_select_star s; q_select_star_tables := q_select_star_tables s; q_joins := q_joins s; q_wheres := q_wheres s; q_prewheres := q_prewheres s; q_havings := q_havings s; q_groupbys := q_groupbys s; q_orderbys := q_orderbys s; q_limit := q_limit s; q_offset := q_offset s; q_distinct := q_distinct s; q_for_update := q_for_update s; q_for_update_nowait := q_for_update_nowait s; q_for_update_skip_locked := q_for_update_skip_locked s; q_for_update_of := q_for_update_of s; q_force_indexes := q_force_indexes s; q_use_indexes := q_use_indexes s; q_updates := q_updates s; q_columns := q_columns s; q_values := q_values s; q_replace := q_replace s; q_select_into := q_select_into s; q_subquery_count := q_subquery_count s; q_foreign_table := q_foreign_table s; q_mysql_rollup := q_mysql_rollup s; q_hint := q_hint s; q_modifiers := q_modifiers s; q_final := v; q_sample := q_sample s; q_sample_offset := q_sample_offset s; q_limit_by := q_limit_by s; q_distinct_on := q_distinct_on s; q_insert_or_replace := q_insert_or_replace s; q_top := q_top s; q_top_percent := q_top_percent s; q_top_with_ties := q_top_with_ties s |}.
 Definition set_sample (v : option Z) (s : qstate) : qstate :=
-  {| q_from := q_from s; q_insert_table := q_insert_table s; q_update_table := q_update_table s; q_with := q_with s; q_selects := q_selects s; q_select_star := q_select_star s; q_select_star_tables := q_select_star_tables s; q_joins := q_joins s; q_wheres := q_wheres s; q_prewheres := q_prewheres s; q_havings := q_havings s; q_groupbys := q_groupbys s; q_orderbys := q_orderbys s; q_limit := q_limit s; q_offset := q_offset s; q_distinct := q_distinct s; q_for_update := q_for_update s; q_for_update_nowait := q_for_update_nowait s; q_for_update_skip_locked := q_for_update_skip_locked s; q_for_update_of := q_for_update_of s; q_force_indexes := q_force_indexes s; q_use_indexes := q_use_indexes s; q_updates := q_updates s; q_columns := q_columns s; q_values := q_values s; q_replace := q_replace s; q_select_into := q_select_into s; q_subquery_count := q_subquery_count s; q_foreign_table := q_foreign_table s; q_mysql_rollup := q_mysql_rollup s; q_hint := q_hint s; q_modifiers := q_modifiers s; q_final := q_final s; q_sample := v; q_sample_offset := q_sample_offset s; q_limit_by := q_limit_by s; q_distinct_on := q_distinct_on s; q_insert_or_replace := q_insert_or_replace s |}.
+  {| q_from := q_from s; q_insert_table := q_insert_table s; q_update_table := q_update_table s; q_with := q_with s; q_selects := q_selects s; q_select_star := q_select_star s; q_select_star_tables := q_select_star_tables s; q_joins := q_joins s; q_wheres := q_wheres s; q_prewheres := q_prewheres s; q_havings := q_havings s; q_groupbys := q_groupbys s; q_orderbys := q_orderbys s; q_limit := q_limit s; q_offset := q_offset s; q_distinct := q_distinct s; q_for_update := q_for_update s; q_for_update_nowait := q_for_update_nowait s; q_for_update_skip_locked := q_for_update_skip_locked s; q_for_update_of := q_for_update_of s; q_force_indexes := q_force_indexes s; q_use_indexes := q_use_indexes s; q_updates := q_updates s; q_columns := q_columns s; q_values := q_values s; q_replace := q_replace s; q_select_into := q_select_into s; q_subquery_count := q_subquery_count s; q_foreign_table := q_foreign_table s; q_mysql_rollup := q_mysql_rollup s; q_hint := q_hint s; q_modifiers := q_modifiers s; q_final := q_final s; q_sample := v; q_sample_offset := q_sample_offset s; q_limit_by := q_limit_by s; q_distinct_on := q_distinct_on s; q_insert_or_replace := q_insert_or_replace s; q_top := q_top s; q_top_percent := q_top_percent s; q_top_with_ties := q_top_with_ties s |}.
 Definition set_sample_offset (v : option Z) (s : qstate) : qstate :=
-  {| q_from := q_from s; q_insert_table := q_insert_table s; q_update_table := q_update_table s; q_with := q_with s; q_selects := q_selects s; q_select_star := q_select_star s; q_select_star_tables := q_select_star_tables s; q_joins := q_joins s; q_wheres := q_wheres s; q_prewheres := q_prewheres s; q_havings := q_havings s; q_groupbys := q_groupbys s; q_orderbys := q_orderbys s; q_limit := q_limit s; q_offset := q_offset s; q_distinct := q_distinct s; q_for_update := q_for_update s; q_for_update_nowait := q_for_update_nowait s; q_for_update_skip_locked := q_for_update_skip_locked s; q_for_update_of := q_for_update_of s; q_force_indexes := q_force_indexes s; q_use_indexes := q_use_indexes s; q_updates := q_updates s; q_columns := q_columns s; q_values := q_values s; q_replace := q_replace s; q_select_into := q_select_into s; q_subquery_count := q_subquery_count s; q_foreign_table := q_foreign_table s; q_mysql_rollup := q_mysql_rollup s; q_hint := q_hint s; q_modifiers := q_modifiers s; q_final := q_final s; q_sample := q_sample s; q_sample_offset := v; q_limit_by := q_limit_by s; q_distinct_on := q_distinct_on s; q_insert_or_replace := q_insert_or_replace s |}.
+  {| q_from := q_from s; q_insert_table := q_insert_table s; q_update_table := q_update_table s; q_with := q_with s; q_selects := q_selects s; q_select_star := q_select_star s; q_select_star_tables := q_select_star_tables s; q_joins := q_joins s; q_wheres := q_wheres s; q_prewheres := q_prewheres s; q_havings := q_havings s; q_groupbys := q_groupbys s; q_orderbys := q_orderbys s; q_limit := q_limit s; q_offset := q_offset s; q_distinct := q_distinct s; q_for_update := q_for_update s; q_for_update_nowait := q_for_update_nowait s; q_for_update_skip_locked := q_for_update_skip_locked s; q_for_update_of := q_for_update_of s; q_force_indexes := q_force_indexes s; q_use_indexes := q_use_indexes s; q_updates := q_updates s; q_columns := q_columns s; q_values := q_values s; q_replace := q_replace s; q_select_into := q_select_into s; q_subquery_count := q_subquery_count s; q_foreign_table := q_foreign_table s; q_mysql_rollup := q_mysql_rollup s; q_hint := q_hint s; q_modifiers := q_modifiers s; q_final := q_final s; q_sample := q_sample s; q_sample_offset := v; q_limit_by := q_limit_by s; q_distinct_on := q_distinct_on s; q_insert_or_replace := q_insert_or_replace s; q_top := q_top s; q_top_percent := q_top_percent s; q_top_with_ties := q_top_with_ties s |}.
 Definition set_limit_by (v : option (Z * Z * list term)) (s : qstate) : qstate :=
-  {| q_from := q_from s; q_insert_table := q_insert_table s; q_update_table := q_update_table s; q_with := q_with s; q_selects := q_selects s; q_select_star := q_select_star s; q_select_star_tables := q_select_star_tables s; q_joins := q_joins s; q_wheres := q_wheres s; q_prewheres := q_prewheres s; q_havings := q_havings s; q_groupbys := q_groupbys s; q_orderbys := q_orderbys s; q_limit := q_limit s; q_offset := q_offset s; q_distinct := q_distinct s; q_for_update := q_for_update s; q_for_update_nowait := q_for_update_nowait s; q_for_update_skip_locked := q_for_update_skip_locked s; q_for_update_of := q_for_update_of s; q_force_indexes := q_force_indexes s; q_use_indexes := q_use_indexes s; q_updates := q_updates s; q_columns := q_columns s; q_values := q_values s; q_replace := q_replace s; q_select_into := q_select_into s; q_subquery_count := q_subquery_count s; q_foreign_table := q_foreign_table s; q_mysql_rollup := q_mysql_rollup s; q_hint := q_hint s; q_modifiers := q_modifiers s; q_final := q_final s; q_sample := q_sample s; q_sample_offset := q_sample_offset s; q_limit_by := v; q_distinct_on := q_distinct_on s; q_insert_or_replace := q_insert_or_replace s |}.
+  {| q_from := q_from s; q_insert_table := q_insert_table s; q_update_table := q_update_table s; q_with := q_with s; q_selects := q_selects s; q_select_star := q_select_star s; q_select_star_tables := q_select_star_tables s; q_joins := q_joins s; q_wheres := q_wheres s; q_prewheres := q_prewheres s; q_havings := q_havings s; q_groupbys := q_groupbys s; q_orderbys := q_orderbys s; q_limit := q_limit s; q_offset := q_offset s; q_distinct := q_distinct s; q_for_update := q_for_update s; q_for_update_nowait := q_for_update_nowait s; q_for_update_skip_locked := q_for_update_skip_locked s; q_for_update_of := q_for_update_of s; q_force_indexes := q_force_indexes s; q_use_indexes := q_use_indexes s; q_updates := q_updates s; q_columns := q_columns s; q_values := q_values s; q_replace := q_replace s; q_select_into := q_select_into s; q_subquery_count := q_subquery_count s; q_foreign_table := q_foreign_table s; q_mysql_rollup := q_mysql_rollup s; q_hint := q_hint s; q_modifiers := q_modifiers s; q_final := q_final s; q_sample := q_sample s; q_sample_offset := q_sample_offset s; q_limit_by := v; q_distinct_on := q_distinct_on s; q_insert_or_replace := q_insert_or_replace s; q_top := q_top s; q_top_percent := q_top_percent s; q_top_with_ties := q_top_with_ties s |}.
 Definition set_distinct_on (v : list term) (s : qstate) : qstate :=
-  {| q_from := q_from s; q_insert_table := q_insert_table s; q_update_table := q_update_table s; q_with := q_with s; q_selects := q_selects s; q_select_star := q_select_star s; q_select_star_tables := q_select_star_tables s; q_joins := q_joins s; q_wheres := q_wheres s; q_prewheres := q_prewheres s; q_havings := q_havings s; q_groupbys := q_groupbys s; q_orderbys := q_orderbys s; q_limit := q_limit s; q_offset := q_offset s; q_distinct := q_distinct s; q_for_update := q_for_update s; q_for_update_nowait := q_for_update_nowait s; q_for_update_skip_locked := q_for_update_skip_locked s; q_for_update_of := q_for_update_of s; q_force_indexes := q_force_indexes s; q_use_indexes := q_use_indexes s; q_updates := q_updates s; q_columns := q_columns s; q_values := q_values s; q_replace := q_replace s; q_select_into := q_select_into s; q_subquery_count := q_subquery_count s; q_foreign_table := q_foreign_table s; q_mysql_rollup := q_mysql_rollup s; q_hint := q_hint s; q_modifiers := q_modifiers s; q_final := q_final s; q_sample := q_sample s; q_sample_offset := q_sample_offset s; q_limit_by := q_limit_by s; q_distinct_on := v; q_insert_or_replace := q_insert_or_replace s |}.
+  {| q_from := q_from s; q_insert_table := q_insert_table s; q_update_table := q_update_table s; q_with := q_with s; q_selects := q_selects s; q_select_star := q_select_star s; q_select_star_tables := q_select_star_tables s; q_joins := q_joins s; q_wheres := q_wheres s; q_prewheres := q_prewheres s; q_havings := q_havings s; q_groupbys := q_groupbys s; q_orderbys := q_orderbys s; q_limit := q_limit s; q_offset := q_offset s; q_distinct := q_distinct s; q_for_update := q_for_update s; q_for_update_nowait := q_for_update_nowait s; q_for_update_skip_locked := q_for_update_skip_locked s; q_for_update_of := q_for_update_of s; q_force_indexes := q_force_indexes s; q_use_indexes := q_use_indexes s; q_updates := q_updates s; q_columns := q_columns s; q_values := q_values s; q_replace := q_replace s; q_select_into := q_select_into s; q_subquery_count := q_subquery_count s; q_foreign_table := q_foreign_table s; q_mysql_rollup := q_mysql_rollup s; q_hint := q_hint s; q_modifiers := q_modifiers s; q_final := q_final s; q_sample := q_sample s; q_sample_offset := q_sample_offset s; q_limit_by := q_limit_by s; q_distinct_on := v; q_insert_or_replace := q_insert_or_replace s; q_top := q_top s; q_top_percent := q_top_percent s; q_top_with_ties := q_top_with_ties s |}.
 Definition set_insert_or_replace (v : bool) (s : qstate) : qstate :=
-  {| q_from := q_from s; q_insert_table := q_insert_table s; q_update_table := q_update_table s; q_with := q_with s; q_selects := q_selects s; q_select_star := q_select_star s; q_select_star_tables := q_select_star_tables s; q_joins := q_joins s; q_wheres := q_wheres s; q_prewheres := q_prewheres s; q_havings := q_havings s; q_groupbys := q_groupbys s; q_orderbys := q_orderbys s; q_limit := q_limit s; q_offset := q_offset s; q_distinct := q_distinct s; q_for_update := q_for_update s; q_for_update_nowait := q_for_update_nowait s; q_for_update_skip_locked := q_for_update_skip_locked s; q_for_update_of := q_for_update_of s; q_force_indexes := q_force_indexes s; q_use_indexes := q_use_indexes s; q_updates := q_updates s; q_columns := q_columns s; q_values := q_values s; q_replace := q_replace s; q_select_into := q_select_into s; q_subquery_count := q_subquery_count s; q_foreign_table := q_foreign_table s; q_mysql_rollup := q_mysql_rollup s; q_hint := q_hint s; q_modifiers := q_modifiers s; q_final := q_final s; q_sample := q_sample s; q_sample_offset := q_sample_offset s; q_limit_by := q_limit_by s; q_distinct_on := q_distinct_on s; q_insert_or_replace := v |}.
+  {| q_from := q_from s; q_insert_table := q_insert_table s; q_update_table := q_update_table s; q_with := q_with s; q_selects := q_selects s; q_select_star := q_select_star s; q_select_star_tables := q_select_star_tables s; q_joins := q_joins s; q_wheres := q_wheres s; q_prewheres := q_prewheres s; q_havings := q_havings s; q_groupbys := q_groupbys s; q_orderbys := q_orderbys s; q_limit := q_limit s; q_offset := q_offset s; q_distinct := q_distinct s; q_for_update := q_for_update s; q_for_update_nowait := q_for_update_nowait s; q_for_update_skip_locked := q_for_update_skip_locked s; q_for_update_of := q_for_update_of s; q_force_indexes := q_force_indexes s; q_use_indexes := q_use_indexes s; q_updates := q_updates s; q_columns := q_columns s; q_values := q_values s; q_replace := q_replace s; q_select_into := q_select_into s; q_subquery_count := q_subquery_count s; q_foreign_table := q_foreign_table s; q_mysql_rollup := q_mysql_rollup s; q_hint := q_hint s; q_modifiers := q_modifiers s; q_final := q_final s; q_sample := q_sample s; q_sample_offset := q_sample_offset s; q_limit_by := q_limit_by s; q_distinct_on := q_distinct_on s; q_insert_or_replace := v; q_top := q_top s; q_top_percent := q_top_percent s; q_top_with_ties := q_top_with_ties s |}.
+Definition set_top (v : option Z) (s : qstate) : qstate :=
+  {| q_from := q_from s; q_insert_table := q_insert_table s; q_update_table := q_update_table s; q_with := q_with s; q_selects := q_selects s; q_select_star := q_select_star s; q_select_star_tables := q_select_star_tables s; q_joins := q_joins s; q_wheres := q_wheres s; q_prewheres := q_prewheres s; q_havings := q_havings s; q_groupbys := q_groupbys s; q_orderbys := q_orderbys s; q_limit := q_limit s; q_offset := q_offset s; q_distinct := q_distinct s; q_for_update := q_for_update s; q_for_update_nowait := q_for_update_nowait s; q_for_update_skip_locked := q_for_update_skip_locked s; q_for_update_of := q_for_update_of s; q_force_indexes := q_force_indexes s; q_use_indexes := q_use_indexes s; q_updates := q_updates s; q_columns := q_columns s; q_values := q_values s; q_replace := q_replace s; q_select_into := q_select_into s; q_subquery_count := q_subquery_count s; q_foreign_table := q_foreign_table s; q_mysql_rollup := q_mysql_rollup s; q_hint := q_hint s; q_modifiers := q_modifiers s; q_final := q_final s; q_sample := q_sample s; q_sample_offset := q_sample_offset s; q_limit_by := q_limit_by s; q_distinct_on := q_distinct_on s; q_insert_or_replace := q_insert_or_replace s; q_top := v; q_top_percent := q_top_percent s; q_top_with_ties := q_top_with_ties s |}.
+Definition set_top_percent (v : bool) (s : qstate) : qstate :=
+  {| q_from := q_from s; q_insert_table := q_insert_table s; q_update_table := q_update_table s; q_with := q_with s; q_selects := q_selects s; q_select_star := q_select_star s; q_select_star_tables := q_select_star_tables s; q_joins := q_joins s; q_wheres := q_wheres s; q_prewheres := q_prewheres s; q_havings := q_havings s; q_groupbys := q_groupbys s; q_orderbys := q_orderbys s; q_limit := q_limit s; q_offset := q_offset s; q_distinct := q_distinct s; q_for_update := q_for_update s; q_for_update_nowait := q_for_update_nowait s; q_for_update_skip_locked := q_for_update_skip_locked s; q_for_update_of := q_for_update_of s; q_force_indexes := q_force_indexes s; q_use_indexes := q_use_indexes s; q_updates := q_updates s; q_columns := q_columns s; q_values := q_values s; q_replace := q_replace s; q_select_into := q_select_into s; q_subquery_count := q_subquery_count s; q_foreign_table := q_foreign_table s; q_mysql_rollup := q_mysql_rollup s; q_hint := q_hint s; q_modifiers := q_modifiers s; q_final := q_final s; q_sample := q_sample s; q_sample_offset := q_sample_offset s; q_limit_by := q_limit_by s; q_distinct_on := q_distinct_on s; q_insert_or_replace := q_insert_or_replace s; q_top := q_top s; q_top_percent := v; q_top_with_ties := q_top_with_ties s |}.
+Definition set_top_with_ties (v : bool) (s : qstate) : qstate :=
+  {| q_from := q_from s; q_insert_table := q_insert_table s; q_update_table := q_update_table s; q_with := q_with s; q_selects := q_selects s; q_select_star := q_select_star s; q_select_star_tables := q_select_star_tables s; q_joins := q_joins s; q_wheres := q_wheres s; q_prewheres := q_prewheres s; q_havings := q_havings s; q_groupbys := q_groupbys s; q_orderbys := q_orderbys s; q_limit := q_limit s; q_offset := q_offset s; q_distinct := q_distinct s; q_for_update := q_for_update s; q_for_update_nowait := q_for_update_nowait s; q_for_update_skip_locked := q_for_update_skip_locked s; q_for_update_of := q_for_update_of s; q_force_indexes := q_force_indexes s; q_use_indexes := q_use_indexes s; q_updates := q_updates s; q_columns := q_columns s; q_values := q_values s; q_replace := q_replace s; q_select_into := q_select_into s; q_subquery_count := q_subquery_count s; q_foreign_table := q_foreign_table s; q_mysql_rollup := q_mysql_rollup s; q_hint := q_hint s; q_modifiers := q_modifiers s; q_final := q_final s; q_sample := q_sample s; q_sample_offset := q_sample_offset s; q_limit_by := q_limit_by s; q_distinct_on := q_distinct_on s; q_insert_or_replace := q_insert_or_replace s; q_top := q_top s; q_top_percent := q_top_percent s; q_top_with_ties := v |}.
 
 (* one name per slot of the record *)
-Inductive slot := S_from | S_insert_table | S_update_table | S_with | S_selects | S_select_star | S_select_star_tables | S_joins | S_wheres | S_prewheres | S_havings | S_groupbys | S_orderbys | S_limit | S_offset | S_distinct | S_for_update | S_for_update_nowait | S_for_update_skip_locked | S_for_update_of | S_force_indexes | S_use_indexes | S_updates | S_columns | S_values | S_replace | S_select_into | S_subquery_count | S_foreign_table | S_mysql_rollup | S_hint | S_modifiers | S_final | S_sample | S_sample_offset | S_limit_by | S_distinct_on | S_insert_or_replace.
-Definition all_slots : list slot := [S_from; S_insert_table; S_update_table; S_with; S_selects; S_select_star; S_select_star_tables; S_joins; S_wheres; S_prewheres; S_havings; S_groupbys; S_orderbys; S_limit; S_offset; S_distinct; S_for_update; S_for_update_nowait; S_for_update_skip_locked; S_for_update_of; S_force_indexes; S_use_indexes; S_updates; S_columns; S_values; S_replace; S_select_into; S_subquery_count; S_foreign_table; S_mysql_rollup; S_hint; S_modifiers; S_final; S_sample; S_sample_offset; S_limit_by; S_distinct_on; S_insert_or_replace].
+Inductive slot := S_from | S_insert_table | S_update_table | S_with | S_selects | S_select_star | S_select_star_tables | S_joins | S_wheres | S_prewheres | S_havings | S_groupbys | S_orderbys | S_limit | S_offset | S_distinct | S_for_update | S_for_update_nowait | S_for_update_skip_locked | S_for_update_of | S_force_indexes | S_use_indexes | S_updates | S_columns | S_values | S_replace | S_select_into | S_subquery_count | S_foreign_table | S_mysql_rollup | S_hint | S_modifiers | S_final | S_sample | S_sample_offset | S_limit_by | S_distinct_on | S_insert_or_replace | S_top | S_top_percent | S_top_with_ties.
+Definition all_slots : list slot := [S_from; S_insert_table; S_update_table; S_with; S_selects; S_select_star; S_select_star_tables; S_joins; S_wheres; S_prewheres; S_havings; S_groupbys; S_orderbys; S_limit; S_offset; S_distinct; S_for_update; S_for_update_nowait; S_for_update_skip_locked; S_for_update_of; S_force_indexes; S_use_indexes; S_updates; S_columns; S_values; S_replace; S_select_into; S_subquery_count; S_foreign_table; S_mysql_rollup; S_hint; S_modifiers; S_final; S_sample; S_sample_offset; S_limit_by; S_distinct_on; S_insert_or_replace; S_top; S_top_percent; S_top_with_ties].
 Definition slot_eqb (a b : slot) : bool :=
   match a, b with
   | S_from, S_from => true
@@ -260,6 +270,9 @@ Definition slot_eqb (a b : slot) : bool :=
   | S_limit_by, S_limit_by => true
   | S_distinct_on, S_distinct_on => true
   | S_insert_or_replace, S_insert_or_replace => true
+  | S_top, S_top => true
+  | S_top_percent, S_top_percent => true
+  | S_top_with_ties, S_top_with_ties => true
   | _, _ => false
   end.
 (* two states agree on a slot *)
@@ -303,12 +316,15 @@ Definition eq_on (x : slot) (a b : qstate) : Prop :=
   | S_limit_by => q_limit_by a = q_limit_by b
   | S_distinct_on => q_distinct_on a = q_distinct_on b
   | S_insert_or_replace => q_insert_or_replace a = q_insert_or_replace b
+  | S_top => q_top a = q_top b
+  | S_top_percent => q_top_percent a = q_top_percent b
+  | S_top_with_ties => q_top_with_ties a = q_top_with_ties b
   end.
 
 (* QueryBuilder.__init__ *)
 Definition init : qstate :=
   mkq [] None None [] [] false [] [] None None None [] [] None None false false false false [] [] [] [] [] []
-      false false 0 false false None [] false None None None [] false.
+      false false 0 false false None [] false None None None [] false None false false.
 
 (* ---- arguments of the calls ---------------------------------------------------------------- *)
 Inductive sel_item := SField (t : term) | SStr (s : string) | SOther (t : term).
@@ -320,6 +336,11 @@ Inductive join_spec :=
 | JSOnNone                                         (* .on(None) *)
 | JSUsing (names : list string)                    (* .using( *names) *)
 | JSCross.                                         (* .cross() *)
+
+(* the value given to MSSQL top(): an int, a str, or a number that is not integral (5.7) *)
+Inductive top_arg := TopInt (z : Z) | TopStr (s : string) | TopFraction.
+Definition top_value (v : top_arg) : option Z :=
+  match v with TopInt z => Some z | TopStr s => Z_of_string s | TopFraction => None end.
 
 Inductive call :=
 | CFrom (t : tbl) (subcount : Z)                   (* from_(t); subcount = t._subquery_count for a sub-query *)
@@ -350,7 +371,8 @@ Inductive call :=
 | CFinal                                             (* ClickHouse final() *)
 | CSample (n : Z) (offset : option Z)                (* ClickHouse sample(n, offset=None) *)
 | CLimitBy (n offset : Z) (by_ : list col_item)      (* ClickHouse limit_by(n, by) [offset 0] / limit_offset_by *)
-| CDistinctOn (fields : list col_item).              (* PostgreSQL / ClickHouse distinct_on( fields) *)
+| CDistinctOn (fields : list col_item)               (* PostgreSQL / ClickHouse distinct_on( fields) *)
+| CTop (v : top_arg) (percent with_ties : bool).     (* MSSQL top(value, percent=, with_ties=) *)
 
 Definition kind_of (c : call) : kind :=
   match c with
@@ -361,7 +383,7 @@ Definition kind_of (c : call) : kind :=
   | CWith _ _ => KWith | CForceIndex _ => KForceIndex | CUseIndex _ => KUseIndex | CSet _ _ => KSet
   | CColumns _ => KColumns | CInsert _ _ => KInsert | CInsertOrReplace _ => KInsert
   | CHint _ => KHint | CModifier _ => KModifier | CFinal => KFinal | CSample _ _ => KSample
-  | CLimitBy _ _ _ => KLimitBy | CDistinctOn _ => KDistinctOn
+  | CLimitBy _ _ _ => KLimitBy | CDistinctOn _ => KDistinctOn | CTop _ _ _ => KTop
   end.
 
 (* ---- from_ / into / update ----------------------------------------------------------------- *)
@@ -624,6 +646,13 @@ Definition step (s : qstate) (c : call) : res qstate :=
   | CSample n off => Ok (set_sample_offset off (set_sample (Some n) s))
   | CLimitBy n off by_ => Ok (set_limit_by (Some (n, off, map (col_item_term None) by_)) s)
   | CDistinctOn fields => Ok (set_distinct_on (q_distinct_on s ++ map (col_item_term None) fields) s)
+  | CTop v percent ties =>
+      match top_value v with
+      | None => Err "QueryException"                 (* not an integer *)
+      | Some n =>
+          if percent && negb ((0 <=? n) && (n <=? 100)) then Err "QueryException"
+          else Ok (set_top_with_ties ties (set_top_percent percent (set_top (Some n) s)))
+      end
   end.
 
 Fixpoint run (s : qstate) (l : list call) : res qstate :=
@@ -661,6 +690,7 @@ Definition writes (k : kind) : list slot :=
   | KSample => [S_sample; S_sample_offset]
   | KLimitBy => [S_limit_by]
   | KDistinctOn => [S_distinct_on]
+  | KTop => [S_top; S_top_percent; S_top_with_ties]
   end.
 (* reads (beyond the old value of the written slots) *)
 Definition reads (k : kind) : list slot :=
